@@ -1,8 +1,10 @@
-"""C01 — B+ tree containers vs the std ordered containers: the clauses whose truth is in the shape of
-the code.  Key predicates and both in-node searches as truth tables over the user's less(); which search
-every lookup descends with; the hit test; the duplicate-run walk of erase(iterator); the sibling
-bookkeeping of the erase descents and the legality of every underflow resolution; node capacity
-predicates for independent leaf/inner capacities; front-end flags and forwarding; iterator step twins."""
+"""C01 — B+ tree containers vs the std ordered containers, decided clause by clause.  Every clause reports a violation
+only with a counterexample produced by an evaluation: key predicates as truth tables over the user's less(); both in-node
+searches executed on all small sorted nodes; which search every lookup descends with; the hit test as a decision table over
+the statements between the leaf search and the decision; the duplicate-run walk of erase(iterator) and the sibling bookkeeping
+of the erase descents as decision tables over the statements around the recursive call; legality of every underflow resolution;
+node capacity predicates for independent leaf/inner capacities; front-end flags and forwarding; iterator steps by abstract
+execution.  A construct that is not understood raises dtable.Undecidable (exit 2), never a violation."""
 from engine import ir, dtable, match
 from engine.ir import kids, walk, strip_casts, const_int, ref_of
 from rules import btcommon as B
@@ -37,6 +39,16 @@ class KeyEval:
             return self.truth(kids(n)[0], val, bind, depth) and self.truth(kids(n)[1], val, bind, depth)
         if k == "BinaryOperator" and n.get("op") == "||":
             return self.truth(kids(n)[0], val, bind, depth) or self.truth(kids(n)[1], val, bind, depth)
+        if k == "BinaryOperator" and n.get("op") in ("==", "!=", "^") and \
+                all((x.get("ty") or "").replace("const ", "") == "bool" for x in (strip_casts(kids(n)[0]), strip_casts(kids(n)[1]))):
+            same = self.truth(kids(n)[0], val, bind, depth) == self.truth(kids(n)[1], val, bind, depth)
+            return same if n["op"] == "==" else not same
+        if k == "ConditionalOperator":
+            c, a, b = kids(n)
+            return self.truth(a if self.truth(c, val, bind, depth) else b, val, bind, depth)
+        if k == "DeclRefExpr" and n["ref"]["id"] in bind and (n.get("ty") or "").replace("const ", "").rstrip("& ") == "bool":
+            e, b2 = bind[n["ref"]["id"]]
+            return self.truth(e, val, b2, depth + 1)
         fc = match.functor_call(n)
         if fc is not None and len(fc[1]) == 2 and match.this_field(fc[0]) is not None:
             x = self.resolve(fc[1][0], bind)
@@ -53,7 +65,7 @@ class KeyEval:
             nb = {}
             for p, a in zip(callee.params, args):
                 nb[p["did"]] = (a, bind)
-            return self.truth(B.single_return(callee), val, nb, depth + 1)
+            return self.truth(returned_expr(callee), val, nb, depth + 1)
         raise dtable.Undecidable("not a key predicate: %s" % dtable.describe(n))
 
     def resolve(self, e, bind):
@@ -64,6 +76,18 @@ class KeyEval:
             e = strip_casts(e)
             d = ref_of(e)
         return self.classify(e)
+
+
+def returned_expr(fn):
+    """the value a small function returns as one expression: `return e;`, or  decl* (if (c) return e;)* return e;  with the locals
+    replaced by their initialisers"""
+    def noop(s):      # a compiled-out TLX_BTREE_PRINT / TLX_BTREE_ASSERT: `;` or `do {} while (0)`
+        return s is None or s["k"] == "NullStmt" or (s["k"] == "DoStmt" and not any(
+            y["k"] not in ("CompoundStmt", "NullStmt") for y in walk(kids(s)[0])) and const_int(kids(s)[1]) == 0)
+    e = dtable.stmts_as_expr([s for s in kids(fn.body) if not noop(s)])
+    if e is None:
+        raise dtable.Undecidable("%s: the value returned by %s is not a single expression" % (fn.loc, fn.name))
+    return e
 
 
 WEAK = [  # consistent valuations of less(a,b), less(b,a) for a strict weak order
@@ -95,7 +119,7 @@ def check_keypreds(ck, tu, tree):
         ke = KeyEval(tu, classify)
         rows = []
         for v in WEAK:
-            got = ke.truth(B.single_return(fn), v)
+            got = ke.truth(returned_expr(fn), v)
             want = spec(v[("a", "b")], v[("b", "a")])
             rows.append((v, got, want))
         badrows = [r for r in rows if r[1] != r[2]]
@@ -109,152 +133,175 @@ def check_keypreds(ck, tu, tree):
 
 
 # ------------------------------------------------------------------ in-node searches
-def skip_spec(which):
-    # slot s is skipped iff key(s) < key (lower)  /  iff !(key < key(s)) (upper)
-    if which == "find_lower":
-        return lambda sk_key, key_sk: sk_key
-    return lambda sk_key, key_sk: not key_sk
+class _Key:
+    """a key of the search model: only the tree's comparator may look at its rank (rank None = the garbage beyond slotuse)"""
+    __slots__ = ("rank",)
+
+    def __init__(self, rank):
+        self.rank = rank
+
+    def __eq__(self, other):
+        raise dtable.Undecidable("keys of the search model are compared without the tree's comparator")
+
+    __hash__ = object.__hash__
+
+    def __repr__(self):
+        return "key#%s" % self.rank
 
 
-SEARCH_VALS = [
+def _search_exec_class():
+    from engine import absexec
+
+    class SearchExec(absexec.Exec):
+        """runs one find_lower/find_upper instantiation on a concrete node; compile-time conditions (the binary-search
+        threshold, self_verify) are forced either way so that every search variant of the template is executed"""
+
+        def __init__(self, fn, tu, forced):
+            absexec.Exec.__init__(self, fn, {"leaf": SEARCH_CAP, "inner": SEARCH_CAP}, tu=tu,
+                                  stubs={"operator()": self._less, "key": self._key})
+            self.forced = forced
+            self.taken = []
+
+
+        @staticmethod
+        def _less(ex, e):
+            fc = match.functor_call(e)
+            if fc is None or len(fc[1]) != 2 or match.this_field(fc[0]) is None:
+                return NotImplemented
+            a, b = ex.ev(fc[1][0]), ex.ev(fc[1][1])
+            if not isinstance(a, _Key) or not isinstance(b, _Key):
+                raise dtable.Undecidable("line %s: the comparator is applied to something that is not a key: %s"
+                                         % (e.get("l"), dtable.describe(e)))
+            if a.rank is None or b.rank is None:
+                raise absexec.Problem("compares the key of a slot at or beyond slotuse (line %s: %s)" % (e.get("l"), dtable.describe(e)))
+            return a.rank < b.rank
+
+        @staticmethod
+        def _key(ex, e):
+            args = kids(e)
+            if not e.get("member_call") or len(args) != 2:
+                return NotImplemented
+            obj, idx = ex.ev(args[0]), ex.ev(args[1])
+            if not isinstance(obj, absexec.Node):
+                raise dtable.Undecidable("line %s: key() on something that is not the searched node" % e.get("l"))
+            ex.check_index(obj, "slotkey", idx, e)
+            return obj.slotkey[idx]
+
+        def stmt(self, s):
+            if s is not None and s["k"] == "IfStmt" and s.get("id") in self.forced:
+                take = self.forced[s["id"]]
+                self.taken.append((s["id"], take))
+                return self.stmt(kids(s)[1] if take else (kids(s)[2] if len(kids(s)) > 2 else None))
+            if s is not None and s["k"] == "DoStmt":
+                body, cond = kids(s)
+                for _ in range(256):
+                    try:
+                        self.stmt(body)
+                    except absexec._Break:
+                        break
+                    except absexec._Continue:
+                        pass
+                    if not self.truth(self.ev(cond)):
+                        break
+                else:
+                    raise ir.AnalysisBroken("loop at line %s does not terminate in the model" % s.get("l"))
+                return None
+            return absexec.Exec.stmt(self, s)
+    return SearchExec
+
+
+SEARCH_VALS = [     # consistent valuations of less(slotkey, key), less(key, slotkey)
     {("slot", "key"): True, ("key", "slot"): False},
     {("slot", "key"): False, ("key", "slot"): True},
     {("slot", "key"): False, ("key", "slot"): False},
 ]
 
+SEARCH_CAP = 6          # slots of the model node
+SEARCH_RANKS = (1, 3)   # key ranks stored in the node (non-decreasing, repeats allowed); searched keys: 0 .. 4
+
+
+def search_want(which, ranks, key):
+    """position std::lower_bound / std::upper_bound returns on the sorted ranks"""
+    for i, r in enumerate(ranks):
+        if (which == "find_lower" and not r < key) or (which != "find_lower" and key < r):
+            return i
+    return len(ranks)
+
+
+def search_nodes():
+    """all non-decreasing key sequences of length 0 .. SEARCH_CAP - 1 over SEARCH_RANKS"""
+    out = [()]
+    for n in range(1, SEARCH_CAP):
+        for ones in range(n + 1):
+            out.append((SEARCH_RANKS[0],) * ones + (SEARCH_RANKS[1],) * (n - ones))
+    return out
+
 
 def check_search(ck, tu, tree, fn):
+    """find_lower / find_upper are executed on every small sorted node for every searched key (keys are opaque, only the tree's
+    comparator orders them); the result must be the position of std::lower_bound / std::upper_bound.  The compile-time
+    branches (binary search above the threshold, linear search below, the self-verification) are all executed."""
+    from engine import absexec
+    SearchExec = _search_exec_class()
     which = fn.name
-    spec = skip_spec(which)
-    keyp = fn.params[1]["did"]
-    node = fn.params[0]["did"]
-
-    def classify(e):
-        if ref_of(e) == keyp:
-            return "key"
-        if "callee" in e and e["callee"]["name"] == "key" and e.get("member_call") and ref_of(kids(e)[0]) == node:
-            return "slot"
-        return None
-    ke = KeyEval(tu, classify)
-    rets = [n for n in walk(fn.body) if n["k"] == "ReturnStmt" and kids(n)]
-    returned = {ref_of(kids(r)[0]) for r in rets if ref_of(kids(r)[0]) is not None}
-    found = 0
-    ntype = "leaf" if "LeafNode" in fn.targs[0] else "inner"
-    for loop in match.loops_in(fn.body):
-        if loop["k"] != "WhileStmt":
-            continue
-        cond, body = kids(loop)[0], kids(loop)[1]
-        b = match.binop(cond, ("&&",))
-        if b:
-            # linear scan: while (v < slotuse && P(key(v), key)) ++v
-            bound = match.binop(b[1], ("<",))
-            if not bound:
-                continue
-            var = ref_of(bound[1])
-            if var not in returned:
-                continue     # the self-verification scan, not the result
-            f = match.field_of(bound[2])
-            if not f or f[1] != "slotuse" or ref_of(f[0]) != node:
-                ck.violation("SEARCH-TABLE", fn.qname, "linear-bound",
-                             "the linear scan is not bounded by n->slotuse: %s" % dtable.describe(b[1]), fn.nloc(loop))
-                continue
-            keyarg = [z for z in walk(b[2]) if "callee" in z and z["callee"]["name"] == "key" and z.get("member_call")]
-            if not keyarg or any(ref_of(kids(z)[1]) != var for z in keyarg):
-                ck.violation("SEARCH-TABLE", fn.qname, "linear-index",
-                             "the scanned slot is not the loop variable: %s" % dtable.describe(b[2]), fn.nloc(loop))
-                continue
-            u = match.unop(body, ("++",))
-            if not u or ref_of(u[1]) != var:
-                raise ir.AnalysisBroken("%s: linear scan body not understood" % fn.full)
-            found += 1
-            for v in SEARCH_VALS:
-                got = ke.truth(b[2], v)
-                want = spec(v[("slot", "key")], v[("key", "slot")])
-                if got != want:
-                    ck.violation("SEARCH-TABLE", fn.qname, "linear:%s" % ntype,
-                                 "linear %s skips a slot %s when less(slotkey,key)=%s, less(key,slotkey)=%s; %s"
-                                 % (which, "" if got else "not", v[("slot", "key")], v[("key", "slot")],
-                                    "a lower bound skips exactly the slots with slotkey < key" if which == "find_lower"
-                                    else "an upper bound skips exactly the slots with slotkey <= key"), fn.nloc(loop))
-                    break
-            else:
-                ck.ok("SEARCH-TABLE", tree.where(fn, ntype + " linear"), "skip predicate agrees with %s on 3 orderings" % which)
-            continue
-        # lo <= hi is kept by `hi = mid` / `lo = mid + 1` with lo <= mid < hi, so `lo != hi` is the same test
-        bound = match.binop(cond, ("<", "!="))
-        if not bound:
-            continue
-        lo, hi = ref_of(bound[1]), ref_of(bound[2])
-        if lo is None or hi is None:
-            continue
-        # binary search: mid = (lo + hi) / 2; if (C) hi = mid; else lo = mid + 1;
-        stmts = kids(body)
-        mids = [s for s in stmts if s["k"] == "DeclStmt"]
-        ifs = [s for s in stmts if s["k"] == "IfStmt"]
-        if len(mids) != 1 or len(ifs) != 1:
-            raise ir.AnalysisBroken("%s: binary search body not understood" % fn.full)
-        midv = kids(mids[0])[0]
-        h = match.is_halved(kids(midv)[0])
-        hb = match.binop(h, ("+",)) if h is not None else None
-        if not hb or {ref_of(hb[1]), ref_of(hb[2])} != {lo, hi}:
-            ck.violation("SEARCH-TABLE", fn.qname, "binary-mid", "the probe is not the midpoint of [lo, hi): %s"
-                         % dtable.describe(kids(midv)[0]), fn.nloc(midv))
-            continue
-        mid = midv["did"]
-        c, t, e = kids(ifs[0])
-
-        def effect(branch):
-            """'keep' (hi = mid) or 'skip' (lo = mid + 1)"""
-            out = []
-            for z in walk(branch):
-                a = match.binop(z, ("=",)) if z["k"] == "BinaryOperator" else None
-                if not a:
+    if len(fn.params) != 2:
+        raise dtable.Undecidable("%s: %s(node, key) expected, found %d parameters" % (fn.loc, which, len(fn.params)))
+    nodep, keyp = fn.params[0]["did"], fn.params[1]["did"]
+    nty = fn.targs[0] if fn.targs else (fn.params[0].get("ty") or "")
+    if "LeafNode" not in nty and "InnerNode" not in nty:
+        raise dtable.Undecidable("%s: cannot tell whether this %s searches a leaf or an inner node" % (fn.loc, which))
+    ntype = "leaf" if "LeafNode" in nty else "inner"
+    consts = [s for s in walk(fn.body) if s["k"] == "IfStmt" and const_int(kids(s)[0]) is not None]
+    if len(consts) > 4:
+        raise dtable.Undecidable("%s: %d compile-time branches in %s" % (fn.loc, len(consts), which))
+    meaning = ("a lower bound is the first slot whose key is not less than the searched key" if which == "find_lower"
+               else "an upper bound is the first slot whose key is greater than the searched key")
+    variants = {}        # branches actually taken -> (runs, first problem)
+    for bits in range(1 << len(consts)):
+        forced = {s["id"]: bool((bits >> i) & 1) for i, s in enumerate(consts)}
+        sig = None
+        for ranks in search_nodes():
+            for key in range(SEARCH_RANKS[0] - 1, SEARCH_RANKS[-1] + 2):
+                node = absexec.Node("n", ntype, SEARCH_CAP, len(ranks))
+                node.slotkey = [_Key(r) for r in ranks] + [_Key(None) for _ in range(SEARCH_CAP - len(ranks))]
+                node.slotdata = node.slotkey
+                ex = SearchExec(fn, tu, forced)
+                ex.env[nodep] = node
+                ex.env[keyp] = _Key(key)
+                problem = None
+                try:
+                    got = ex.run(kids(fn.body))
+                    if isinstance(got, bool) or not isinstance(got, int):
+                        raise dtable.Undecidable("%s: the search returns %r in the model" % (fn.loc, got))
+                    want = search_want(which, ranks, key)
+                    if got != want:
+                        problem = "returns %d, expected %d" % (got, want)
+                except absexec.Problem as pr:
+                    problem = str(pr)
+                except ir.AnalysisBroken as ab:
+                    if isinstance(ab, dtable.Undecidable) or "does not terminate" not in str(ab):
+                        raise
+                    problem = "does not terminate (%s)" % ab
+                sig = tuple(ex.taken)
+                if sig in variants and variants[sig][1] is not None:
                     continue
-                if ref_of(a[1]) == hi and ref_of(a[2]) == mid:
-                    out.append("keep")
-                elif ref_of(a[1]) == lo:
-                    pl = match.binop(a[2], ("+",))
-                    if pl and ref_of(pl[1]) == mid and const_int(pl[2]) == 1:
-                        out.append("skip")
-                    else:
-                        out.append("?" + dtable.describe(a[2]))
-                else:
-                    out.append("?" + dtable.describe(z))
-            return out
-        te, ee = effect(t), effect(e)
-        if sorted(te + ee) != ["keep", "skip"] or len(te) != 1:
-            ck.violation("SEARCH-TABLE", fn.qname, "binary-steps",
-                         "the binary search must narrow with exactly `hi = mid` and `lo = mid + 1`; found %s / %s"
-                         % (te, ee), fn.nloc(ifs[0]))
-            continue
-        keyarg = [z for z in walk(c) if "callee" in z and z["callee"]["name"] == "key" and z.get("member_call")]
-        if not keyarg or any(ref_of(kids(z)[1]) != mid for z in keyarg):
-            ck.violation("SEARCH-TABLE", fn.qname, "binary-index", "the probed slot is not mid: %s" % dtable.describe(c),
-                         fn.nloc(ifs[0]))
-            continue
-        found += 1
-        ok = True
-        for v in SEARCH_VALS:
-            ct = ke.truth(c, v)
-            skipped = (te[0] if ct else ee[0]) == "skip"
-            want = spec(v[("slot", "key")], v[("key", "slot")])
-            if skipped != want:
-                ok = False
-                ck.violation("SEARCH-TABLE", fn.qname, "binary:%s" % ntype,
-                             "binary %s %s the probed slot when less(slotkey,key)=%s, less(key,slotkey)=%s; %s"
-                             % (which, "skips" if skipped else "keeps", v[("slot", "key")], v[("key", "slot")],
-                                "a lower bound skips exactly the slots with slotkey < key" if which == "find_lower"
-                                else "an upper bound skips exactly the slots with slotkey <= key"), fn.nloc(ifs[0]))
-                break
-        # the returned variable must be one of the two that have met
-        if ok:
-            ck.ok("SEARCH-TABLE", tree.where(fn, ntype + " binary"), "probe decision agrees with %s on 3 orderings" % which)
-    bad_ret = [r for r in rets if ref_of(kids(r)[0]) is None and const_int(kids(r)[0]) != 0]
-    if bad_ret:
-        ck.violation("SEARCH-TABLE", fn.qname, "return", "returns something other than the search position: %s"
-                     % dtable.describe(kids(bad_ret[0])[0]), fn.nloc(bad_ret[0]))
-    if found != 2:
-        raise ir.AnalysisBroken("%s: expected a binary and a linear search, recognised %d" % (fn.full, found))
+                runs = variants[sig][0] if sig in variants else 0
+                variants[sig] = (runs + 1, None if problem is None else
+                                 "%s on a node with keys %s (ranks in the tree's order) and searched key %d %s; %s"
+                                 % (which, list(ranks), key, problem, meaning))
+    if len(variants) < 2:
+        raise dtable.Undecidable("%s: expected a binary and a linear search variant selected at compile time, found %d variant(s)"
+                                 % (fn.loc, len(variants)))
+    byid = {s["id"]: s for s in consts}
+    for sig, (runs, problem) in sorted(variants.items(), key=lambda kv: [(byid[i].get("l", 0), t) for i, t in kv[0]]):
+        label = ",".join("if@%s=%s" % (byid[i].get("l", "?"), "T" if t else "F") for i, t in sig)
+        code = "".join("T" if t else "F" for _, t in sig)
+        if problem:
+            ck.violation("SEARCH-TABLE", fn.qname, "%s:%s" % (code, ntype), "[%s] %s" % (label, problem), fn.loc)
+        else:
+            ck.ok("SEARCH-TABLE", tree.where(fn, "%s %s" % (ntype, label)),
+                  "%d (node, key) cases agree with std::%s" % (runs, "lower_bound" if which == "find_lower" else "upper_bound"))
+            ck.states += runs
 
 
 # ------------------------------------------------------------------ which search each lookup uses
@@ -265,6 +312,93 @@ SEARCH_ROLE = {
 }
 MIN_SEARCH_CALLS = {"erase_iter_descend": 1}
 
+_WRAPPERS = ("ImplicitCastExpr", "ParenExpr", "CStyleCastExpr", "CXXStaticCastExpr", "CXXFunctionalCastExpr", "ExprWithCleanups",
+             "MaterializeTemporaryExpr", "CXXBindTemporaryExpr")
+
+
+def peel(e):
+    """looks through casts, parentheses, temporaries and single-argument conversions"""
+    while e is not None:
+        e2 = match.strip_conv(e)
+        if e2 is not None and e2["k"] in _WRAPPERS and kids(e2):
+            e2 = kids(e2)[0]
+        if e2 is e:
+            return e
+        e = e2
+    return e
+
+
+def value_use(fn, z):
+    """what happens to the value of the expression z: ('var', decl id) if it initialises or is assigned to a local,
+    ('index', subscript node) if it is itself the index of a subscript, ('shifted-index', subscript node, c) if z + c (c != 0)
+    is the index, else None (not understood)"""
+    n = z
+    p = fn.parent(n)
+    shift = 0
+    while p is not None:
+        if p["k"] in _WRAPPERS:
+            n, p = p, fn.parent(p)
+            continue
+        b = match.binop(p, ("+", "-")) if p["k"] == "BinaryOperator" else None
+        if b and b[1].get("id") == n.get("id") and const_int(b[2]) is not None:
+            shift += const_int(b[2]) if b[0] == "+" else -const_int(b[2])
+            n, p = p, fn.parent(p)
+            continue
+        if b and b[0] == "+" and b[2].get("id") == n.get("id") and const_int(b[1]) is not None:
+            shift += const_int(b[1])
+            n, p = p, fn.parent(p)
+            continue
+        break
+    if p is None:
+        return None
+    if shift:
+        ip = match.index_parts(p)
+        if ip and ip[1] is not None and ip[1].get("id") == n.get("id"):
+            return ("shifted-index", p, shift)
+        return None
+    if p["k"] == "VarDecl":
+        return ("var", p["did"])
+    asg = match.binop(p, ("=",)) if p["k"] in ("BinaryOperator", "CXXOperatorCallExpr") else None
+    if asg and asg[2] is not None and asg[2].get("id") == n.get("id") and ref_of(asg[1]) is not None:
+        return ("var", ref_of(asg[1]))
+    ip = match.index_parts(p)
+    if ip and ip[1] is not None and ip[1].get("id") == n.get("id"):
+        return ("index", p)
+    return None
+
+
+def child_subscripts(fn):
+    """[(subscript node, index expr)] for every X->childid[i] where X is a local / parameter node pointer"""
+    out = []
+    for q in walk(fn.body):
+        ip = match.index_parts(q) if (q["k"] == "ArraySubscriptExpr" or "callee" in q) else None
+        if ip:
+            f = match.field_of(ip[0])
+            if f and f[1] == "childid" and B_param_is_curr(fn, f[0]):
+                out.append((q, ip[1]))
+    return out
+
+
+def displaced_index(idx, var):
+    """the index is positively another slot than `var`: var + c / var - c with c != 0, or a literal"""
+    b = match.binop(idx, ("+", "-"))
+    if b and ref_of(b[1]) == var and const_int(b[2]) not in (None, 0):
+        return True
+    if b and b[0] == "+" and ref_of(b[2]) == var and const_int(b[1]) not in (None, 0):
+        return True
+    return strip_casts(idx)["k"] == "IntegerLiteral"
+
+
+def search_level(fn, z):
+    """'leaf' / 'inner': the node type an in-node search call works on (template argument, else the type of the node argument)"""
+    ta = z["callee"].get("targs") or []
+    ty = ta[0] if ta else ((strip_casts(kids(z)[1]).get("ty") or "") if len(kids(z)) > 1 and kids(z)[1] is not None else "")
+    if "LeafNode" in ty:
+        return "leaf"
+    if "InnerNode" in ty:
+        return "inner"
+    raise dtable.Undecidable("%s: cannot tell whether %s searches a leaf or an inner node" % (fn.nloc(z), dtable.describe(z)))
+
 
 def check_descent(ck, tree):
     for name, want in SEARCH_ROLE.items():
@@ -272,13 +406,16 @@ def check_descent(ck, tree):
             calls = [z for z in walk(fn.body) if "callee" in z and z["callee"]["name"] in ("find_lower", "find_upper")]
             need = MIN_SEARCH_CALLS.get(name, 2)
             if len(calls) < need:
-                raise ir.AnalysisBroken("%s: expected at least %d in-node searches, found %d" % (fn.full, need, len(calls)))
+                raise dtable.Undecidable("%s: %s() is expected to descend with at least %d in-node searches, found %d"
+                                         % (fn.loc, name, need, len(calls)))
             wrong = [z for z in calls if z["callee"]["name"] != want]
-            kinds = sorted({("leaf" if "LeafNode" in z["callee"]["targs"][0] else "inner") for z in calls})
+            kinds = sorted({search_level(fn, z) for z in calls})
             cst = "const" if fn.d.get("const") else "mutable"
             if wrong:
                 z = wrong[0]
-                lvl = "leaf" if "LeafNode" in z["callee"]["targs"][0] else "inner"
+                if value_use(fn, z) is None:
+                    raise dtable.Undecidable("%s: use of the result of %s not understood" % (fn.nloc(z), dtable.describe(z)))
+                lvl = search_level(fn, z)
                 ck.violation("DESCENT-SEARCH", fn.qname, "%s:%s:%s" % (name, cst, lvl),
                              "%s() descends with %s at the %s level; every level must use %s, otherwise the position differs "
                              "from std::%s whenever equal keys or separators are met" % (name, z["callee"]["name"], lvl, want,
@@ -286,48 +423,83 @@ def check_descent(ck, tree):
                              fn.nloc(z))
                 continue
             if need == 2 and kinds != ["inner", "leaf"]:
-                raise ir.AnalysisBroken("%s: searches only at %s level" % (fn.full, kinds))
+                raise dtable.Undecidable("%s: %s() searches only at %s level" % (fn.loc, name, kinds))
             # the child followed is the one the search returned
             problem = None
+            subs = child_subscripts(fn)
             for z in calls:
-                if "InnerNode" not in z["callee"]["targs"][0]:
+                if search_level(fn, z) != "inner":
                     continue
-                par = fn.parent(z)
-                while par is not None and par["k"] not in ("VarDecl", "BinaryOperator"):
-                    par = fn.parent(par)
-                var = None
-                if par is not None and par["k"] == "VarDecl":
-                    var = par["did"]
-                elif par is not None and par.get("op") == "=":
-                    var = ref_of(kids(par)[0])
-                if var is None:
-                    problem = ("result of the inner search is not kept", z)
+                use = value_use(fn, z)
+                if use is None:
+                    raise dtable.Undecidable("%s: use of the result of the inner search %s not understood"
+                                             % (fn.nloc(z), dtable.describe(z)))
+                if use[0] in ("index", "shifted-index"):
+                    if not any(q.get("id") == use[1].get("id") for q, _ in subs):
+                        raise dtable.Undecidable("%s: the inner search indexes something that is not childid: %s"
+                                                 % (fn.nloc(z), dtable.describe(use[1])))
+                    if use[0] == "shifted-index":
+                        problem = ("the child followed is %s, not childid[result of the inner search]" % dtable.describe(use[1]), use[1])
+                        break
+                    continue
+                var = use[1]
+                if any(ref_of(i) == var for _, i in subs):
+                    continue
+                if subs and all(displaced_index(i, var) for _, i in subs):
+                    problem = ("the child followed is %s, not childid[result of the inner search]" % dtable.describe(subs[0][0]), subs[0][0])
                     break
-                idx = []
-                for q in walk(fn.body):
-                    ip = match.index_parts(q) if q["k"] == "ArraySubscriptExpr" else None
-                    if ip:
-                        f = match.field_of(ip[0])
-                        if f and f[1] == "childid" and B_param_is_curr(fn, f[0]):
-                            idx.append(ip[1])
-                if not any(ref_of(i) == var for i in idx):
-                    problem = ("the child followed is not childid[%s]" % (par.get("name") or "slot"), z)
+                raise dtable.Undecidable("%s: cannot tell which child %s() follows after %s" % (fn.nloc(z), name, dtable.describe(z)))
             if problem:
                 ck.violation("DESCENT-SEARCH", fn.qname, "%s:%s:child" % (name, cst), problem[0], fn.nloc(problem[1]))
             else:
                 ck.ok("DESCENT-SEARCH", tree.where(fn, cst), "%d searches, all %s; child = childid[result]" % (len(calls), want))
     for fn in tree.find("equal_range"):
-        rets = [n for n in walk(fn.body) if n["k"] == "ReturnStmt"]
-        names = [z["callee"]["name"] for z in walk(rets[0]) if "callee" in z and z["callee"]["name"] in ("lower_bound", "upper_bound")]
+        rets = [n for n in walk(fn.body) if n["k"] == "ReturnStmt" and kids(n)]
+        if len(rets) != 1:
+            raise dtable.Undecidable("%s: equal_range() with %d return statements" % (fn.loc, len(rets)))
+        inits, assigns = B.local_inits(fn)
+
+        def bound_kind(e, depth=0):
+            e = peel(e)
+            if e is None or depth > 4:
+                return None
+            d = ref_of(e)
+            if d is not None:
+                if d in inits and d not in assigns:
+                    return bound_kind(inits[d], depth + 1)
+                return None
+            if "callee" in e and e.get("member_call") and e["callee"]["name"] in ("lower_bound", "upper_bound") and \
+                    kids(e) and strip_casts(kids(e)[0])["k"] == "This":
+                return e["callee"]["name"]
+            return None
         # evaluation order inside the pair constructor is irrelevant; the argument order is what counts
-        ctor = [z for z in walk(rets[0]) if z["k"] in ("CXXConstructExpr", "CXXTemporaryObjectExpr") and len(kids(z)) == 2]
-        order = []
-        if ctor:
-            for a in kids(ctor[0]):
-                order += [z["callee"]["name"] for z in walk(a) if "callee" in z and z["callee"]["name"] in ("lower_bound", "upper_bound")]
+        pair = None
+        for z in walk(rets[0]):
+            if z["k"] in ("CXXConstructExpr", "CXXTemporaryObjectExpr", "InitListExpr") and len(kids(z)) == 2:
+                pair = kids(z)
+                break
+            if "callee" in z and z["callee"]["name"] == "make_pair" and len(kids(z)) == 2:
+                pair = kids(z)
+                break
+        if pair is None:
+            r = peel(kids(rets[0])[0])
+            d = ref_of(r)
+            if d is not None and d in inits and d not in assigns:
+                for z in walk(inits[d]):
+                    if (z["k"] in ("CXXConstructExpr", "CXXTemporaryObjectExpr", "InitListExpr") or
+                            ("callee" in z and z["callee"]["name"] == "make_pair")) and len(kids(z)) == 2:
+                        pair = kids(z)
+                        break
+        if pair is None:
+            raise dtable.Undecidable("%s: the pair returned by equal_range() is not understood: %s"
+                                     % (fn.nloc(rets[0]), dtable.describe(kids(rets[0])[0])))
+        order = [bound_kind(a) for a in pair]
+        if None in order:
+            raise dtable.Undecidable("%s: an element of the pair returned by equal_range() is not understood: %s"
+                                     % (fn.nloc(rets[0]), dtable.describe(kids(rets[0])[0])))
         if order != ["lower_bound", "upper_bound"]:
             ck.violation("DESCENT-SEARCH", fn.qname, "equal_range", "equal_range must be (lower_bound(key), upper_bound(key)); found %s"
-                         % (order or names), fn.loc)
+                         % order, fn.loc)
         else:
             ck.ok("DESCENT-SEARCH", tree.where(fn), "pair(lower_bound, upper_bound)")
 
@@ -338,120 +510,330 @@ def B_param_is_curr(fn, e):
 
 
 # ------------------------------------------------------------------ hit test
-def hit_cond(fn):
-    """the maximal boolean expression around the key_equal() call"""
-    eq = [z for z in walk(fn.body) if "callee" in z and z["callee"]["name"] == "key_equal"]
-    if len(eq) != 1:
-        raise ir.AnalysisBroken("%s: expected one key_equal test, found %d" % (fn.full, len(eq)))
-    n = eq[0]
-    while True:
-        p = fn.parent(n)
-        if p is None:
-            break
-        if p["k"] in ("ParenExpr", "ImplicitCastExpr") or (p["k"] == "UnaryOperator" and p.get("op") == "!") or \
-                (p["k"] == "BinaryOperator" and p.get("op") in ("&&", "||")):
-            n = p
+def _syn(k, ch=None, **kw):
+    d = {"k": k, "id": _syn.next}
+    _syn.next -= 1
+    if ch is not None:
+        d["ch"] = ch
+    d.update(kw)
+    return d
+
+
+_syn.next = -1000
+
+
+def split_returns(s, as_bool):
+    """the statement with every `return c ? a : b;` turned into `if (c) return a; else return b;` and (as_bool) every
+    `return e;` of a boolean function into `if (e) return true; else return false;` - same behaviour, decidable by paths"""
+    if s is None:
+        return None
+    k = s["k"]
+    if k == "ReturnStmt" and kids(s):
+        e = peel(kids(s)[0])
+        if e is not None and e["k"] == "ConditionalOperator":
+            c, a, b = kids(e)
+            return _syn("IfStmt", [c, split_returns(_syn("ReturnStmt", [a], l=s.get("l")), as_bool),
+                                   split_returns(_syn("ReturnStmt", [b], l=s.get("l")), as_bool)], l=s.get("l"))
+        if as_bool and e is not None and e["k"] != "CXXBoolLiteralExpr" and const_int(e) is None:
+            return _syn("IfStmt", [e, _syn("ReturnStmt", [_syn("CXXBoolLiteralExpr", val=1, ty="bool")], l=s.get("l")),
+                                   _syn("ReturnStmt", [_syn("CXXBoolLiteralExpr", val=0, ty="bool")], l=s.get("l"))], l=s.get("l"))
+        return s
+    if k == "CompoundStmt":
+        out = dict(s)
+        out["ch"] = [split_returns(c, as_bool) for c in kids(s)]
+        return out
+    if k == "IfStmt":
+        out = dict(s)
+        ch = list(kids(s))
+        out["ch"] = [ch[0]] + [split_returns(c, as_bool) for c in ch[1:]]
+        while len(out["ch"]) < 3:
+            out["ch"].append(None)
+        return out
+    return s
+
+
+def writes_to(e, dids):
+    """the expression / statement assigns one of the variables (any assignment operator, ++, --)"""
+    for y in walk(e):
+        w = match.unop(y, ("++", "--")) if y["k"] in ("UnaryOperator", "CXXOperatorCallExpr") else None
+        if w is None and y["k"] in ("BinaryOperator", "CompoundAssignOperator", "CXXOperatorCallExpr"):
+            w = match.binop(y, ("=", "+=", "-=", "*=", "/=", "%=", "|=", "&=", "^=", ">>=", "<<="))
+        if w and ref_of(w[1]) in dids:
+            return True
+    return False
+
+
+def passed_by_reference(e, dids):
+    """a call inside e receives one of the variables as an lvalue (reference parameter) or its address: it may change it"""
+    for y in walk(e):
+        if "callee" in y and y["k"] in ("CallExpr", "CXXMemberCallExpr", "CXXConstructExpr", "CXXTemporaryObjectExpr"):
+            for a in kids(y):
+                if a is not None and a.get("lv") and a["k"] == "DeclRefExpr" and a["ref"]["id"] in dids:
+                    return True
+        if y["k"] == "UnaryOperator" and y.get("op") == "&" and ref_of(kids(y)[0]) in dids:
+            return True
+    return False
+
+
+HIT_OUTCOMES = {   # function -> (outcome on a hit, outcome on a miss)
+    "exists": ("returns true", "returns false"),
+    "find": ("returns the position (leaf, slot)", "returns end()"),
+    "count": ("counts the slot", "stops counting"),
+    "erase_one_descend": ("goes on to erase the slot", "returns btree_not_found"),
+    "insert_descend": ("returns the existing entry", "goes on to insert"),
+}
+
+
+def decision_end(fn, st, at, eq, name):
+    """index after the statement of the list `st` that decides on the test held by st[at]: st[at] itself if it branches, else
+    (the outcome of the test is kept in a boolean flag) the first later statement that consumes the flag"""
+    s = st[at]
+    flags = {x["did"] for x in kids(s) if x["k"] == "VarDecl"} if s["k"] == "DeclStmt" else set()
+    for y in walk(s):
+        w = match.binop(y, ("=", "|=", "&=")) if y["k"] in ("BinaryOperator", "CompoundAssignOperator") else None
+        t = strip_casts(w[1]) if w else None
+        if t is not None and t["k"] == "DeclRefExpr" and (t.get("ty") or "").replace("const ", "") == "bool":
+            flags.add(t["ref"]["id"])
+    cannot_decide = s["k"] == "DeclStmt" or (s["k"] == "BinaryOperator" and s.get("op") == "=")
+    j = at + 1
+    while flags and j < len(st):
+        s2 = st[j]
+        j += 1
+        if s2 is None or not any(y["k"] == "DeclRefExpr" and y["ref"]["id"] in flags for y in walk(s2)):
             continue
-        break
-    return n, eq[0], fn.parent(n)
+        if s2["k"] == "DeclStmt":
+            flags |= {x["did"] for x in kids(s2) if x["k"] == "VarDecl"}
+            continue
+        return j
+    if cannot_decide:
+        raise dtable.Undecidable("%s: the result of the hit test of %s() is kept in a variable whose use was not found"
+                                 % (fn.nloc(eq), name))
+    return at + 1
 
 
 def check_hit(ck, tree):
     for name in ("exists", "find", "count", "erase_one_descend", "insert_descend"):
         for fn in tree.find(name):
-            cond, eq, user = hit_cond(fn)
-            keyp = fn.params[0]["did"] if name != "insert_descend" else fn.params[1]["did"]
-            # operands of key_equal: the searched key and leaf->key(slot)
-            args = kids(eq)[1:]
-            kc = [a for a in args if "callee" in strip_casts(a) and strip_casts(a)["callee"]["name"] == "key"]
-            kk = [a for a in args if ref_of(a) == keyp]
-            cst = "const" if fn.d.get("const") else "mutable"
-            if len(kc) != 1 or len(kk) != 1:
-                ck.violation("HIT-TEST", fn.qname, "%s:%s:operands" % (name, cst),
-                             "the hit test does not compare the searched key with the slot found: %s" % dtable.describe(eq), fn.nloc(eq))
-                continue
-            slot = ref_of(kids(strip_casts(kc[0]))[1])
-            leafv = ref_of(kids(strip_casts(kc[0]))[0])
+            check_hit_fn(ck, tree, fn, name)
 
-            def atomize(n, run):
-                n = strip_casts(n)
-                if n is eq or n.get("id") == eq["id"]:
-                    return "E", False
-                b = match.binop(n, ("<", ">=", ">", "<="))
-                if b:
-                    op, l, r = b
-                    f = match.field_of(r)
-                    if ref_of(l) == slot and f and f[1] == "slotuse" and ref_of(f[0]) == leafv:
-                        return {"<": ("B", False), ">=": ("B", True)}.get(op)
-                    f = match.field_of(l)
-                    if ref_of(r) == slot and f and f[1] == "slotuse" and ref_of(f[0]) == leafv:
-                        return {">": ("B", False), "<=": ("B", True)}.get(op)
-                if ref_of(n) == leafv or (match.ptr_truth(n) is not None and ref_of(match.ptr_truth(n)) == leafv):
-                    return "N", False
-                c = const_int(n)
-                if c is not None:
-                    return bool(c)
-                return None
-            leaves = dtable.explore(cond, atomize, fn, as_expr=True)
-            atoms = dtable.atoms_of(leaves)
-            dupconst = None
-            for z in walk(cond):
-                if z["k"] == "DeclRefExpr" and z["ref"]["name"] == "allow_duplicates":
-                    dupconst = const_int(z)
-            pol = None
-            bad = None
-            if name == "insert_descend" and dupconst:
-                if any(lf["result"] for lf in leaves):
-                    ck.violation("HIT-TEST", fn.qname, "%s:%s:dup" % (name, cst),
-                                 "with duplicates allowed insert must never report `already present`: %s" % dtable.describe(cond), fn.nloc(cond))
-                else:
-                    ck.ok("HIT-TEST", tree.where(fn, cst), "duplicates allowed: the `already present` exit is dead")
-                continue
-            for v, lf in dtable.table(leaves, None, atoms):
-                hit = v.get("B", True) and v.get("E", True) and v.get("N", True)
-                if name == "insert_descend" and dupconst:
-                    hit = False     # duplicates allowed: never "already present"
-                r = lf["result"]
-                p = (r == hit)
-                if pol is None:
-                    pol = p
-                elif pol != p:
-                    bad = v
+
+def check_hit_fn(ck, tree, fn, name):
+    """the code between the leaf-level search and the decision is executed as a decision table over the situations
+    B (slot < slotuse), E (key_equal(key, key(slot))), N (leaf non-null); what the function does in each situation must be
+    what it owes to a hit (B && E && N) or to a miss"""
+    eqs = [z for z in walk(fn.body) if "callee" in z and z["callee"]["name"] == "key_equal"]
+    if len(eqs) != 1:
+        raise dtable.Undecidable("%s: expected one key_equal test in %s(), found %d" % (fn.loc, name, len(eqs)))
+    eq = eqs[0]
+    cst = "const" if fn.d.get("const") else "mutable"
+    keyp = fn.params[0]["did"] if name != "insert_descend" else fn.params[1]["did"]
+    inits, assigns = B.local_inits(fn)
+
+    def operand(e, depth=0):
+        """'key' | ('slot', leaf variable, slot variable) | None"""
+        e = peel(e)
+        if e is None or depth > 4:
+            return None
+        d = ref_of(e)
+        if d == keyp:
+            return "key"
+        if d is not None:
+            if d in inits and d not in assigns and not writes_to(fn.body, {d}):
+                return operand(inits[d], depth + 1)
+            return None
+        if "callee" in e and e["callee"]["name"] == "key" and e.get("member_call") and len(kids(e)) == 2:
+            lf, sl = ref_of(kids(e)[0]), ref_of(kids(e)[1])
+            if lf is not None and sl is not None:
+                return ("slot", lf, sl)
+        return None
+    args = kids(eq)[1:]
+    ops = [operand(a) for a in args]
+    if len(ops) != 2 or None in ops:
+        raise dtable.Undecidable("%s: operands of the hit test not understood: %s" % (fn.nloc(eq), dtable.describe(eq)))
+    slots = [o for o in ops if o != "key"]
+    if len(slots) != 1:
+        ck.violation("HIT-TEST", fn.qname, "%s:%s:operands" % (name, cst),
+                     "the hit test does not compare the searched key with the slot found: %s" % dtable.describe(eq), fn.nloc(eq))
+        return
+    _, leafv, slotv = slots[0]
+
+    # ---- the region: from the definition of the slot to the decision
+    chain = []          # (compound, index of the statement holding eq) from the innermost compound outwards
+    n = eq
+    loop = None
+    while True:
+        p = fn.parent(n)
+        if p is None:
+            break
+        if p["k"] in ("WhileStmt", "ForStmt", "DoStmt", "CXXForRangeStmt") and loop is None:
+            loop = (p, n)
+            break
+        if p["k"] == "CompoundStmt":
+            idx = [i for i, c in enumerate(kids(p)) if c is not None and c.get("id") == n.get("id")]
+            if idx:
+                chain.append((p, idx[0]))
+        n = p
+    if (loop is not None) != (name == "count"):
+        raise dtable.Undecidable("%s: the hit test of %s() is %s a loop" % (fn.nloc(eq), name, "inside" if loop else "not inside"))
+    if loop is not None:
+        follows = []
+        lp, inner = loop
+        if lp["k"] not in ("WhileStmt", "ForStmt"):
+            raise dtable.Undecidable("%s: counting loop of an unexpected kind" % fn.nloc(lp))
+        _, cond, _, body = match.loop_parts(lp)
+        brk = _syn("BreakStmt")
+        if cond is not None and cond.get("id") == inner.get("id"):
+            region = [_syn("IfStmt", [cond, _syn("NullStmt"), brk])]
+        elif body is not None and body.get("id") == inner.get("id"):
+            stmts = kids(body) if body["k"] == "CompoundStmt" else [body]
+            upto = chain[-1][1] if chain and chain[-1][0].get("id") == body.get("id") else 0
+            head = _syn("CompoundStmt", list(stmts[:decision_end(fn, stmts, upto, eq, name)]))
+            region = [_syn("IfStmt", [cond, head, brk])] if cond is not None else [head]
+        else:
+            raise dtable.Undecidable("%s: the hit test sits in the init/increment of the counting loop" % fn.nloc(lp))
+    else:
+        region = None
+        follows = []
+        for comp, at in chain:
+            st = kids(comp)
+            for i in range(at, -1, -1):
+                s = st[i]
+                if s is None:
+                    continue
+                defines = (s["k"] == "DeclStmt" and any(v.get("did") == slotv for v in kids(s))) or \
+                    (i < at and s["k"] not in ("DeclStmt",) and writes_to(s, {slotv}))
+                if defines:
+                    end = len(st)
+                    if name in ("erase_one_descend", "insert_descend"):
+                        # these go on with other work: the region ends with the statement that decides; a test kept in a
+                        # flag is decided by the first statement that consumes the flag
+                        end = decision_end(fn, st, at, eq, name)
+                    region = list(st[i:end])
+                    # a path that falls out of the region meets this statement next
+                    follows = [s2 for s2 in st[end:] if s2 is not None and s2["k"] not in ("NullStmt", "DoStmt")][:1]
                     break
-            if "B" not in atoms or "E" not in atoms:
-                bad = bad or {}
-            if bad is not None:
-                ck.violation("HIT-TEST", fn.qname, "%s:%s" % (name, cst),
-                             "the hit test %s is not `slot < slotuse && key_equal(key, key(slot))` nor its negation (differs at %s)"
-                             % (dtable.describe(cond), dtable.fmt_val(bad) or "missing bound/equality"), fn.nloc(cond))
-                continue
-            if name == "insert_descend" and dupconst and all(lf["result"] is False for lf in leaves):
-                pol = True
-            want_pol = {"exists": True, "find": True, "count": True, "erase_one_descend": False, "insert_descend": True}[name]
-            ok = pol == want_pol
-            detail = ""
-            if ok and name == "erase_one_descend":
-                # the negated test guards `return btree_not_found`
-                ok = user is not None and user["k"] == "IfStmt" and any(
-                    z["k"] == "DeclRefExpr" and z["ref"]["name"] == "btree_not_found" for z in walk(kids(user)[1]))
-                detail = "miss -> btree_not_found"
-            if ok and name == "find":
-                ok = user is not None and user["k"] == "ConditionalOperator" and \
-                    any("callee" in z and z["callee"]["name"] == "end" for z in walk(kids(user)[2])) and \
-                    not any("callee" in z and z["callee"]["name"] == "end" for z in walk(kids(user)[1]))
-                detail = "hit -> iterator(leaf, slot), miss -> end()"
-            if ok and name == "insert_descend":
-                ok = user is not None and user["k"] == "IfStmt" and any(z["k"] == "ReturnStmt" for z in walk(kids(user)[1]))
-                detail = "present && !allow_duplicates -> return existing" + (" (dead: duplicates allowed)" if dupconst else "")
-            if not ok:
-                ck.violation("HIT-TEST", fn.qname, "%s:%s:use" % (name, cst),
-                             "the hit test has the wrong polarity or consequence in %s()" % name, fn.nloc(cond))
-            else:
-                ck.ok("HIT-TEST", tree.where(fn, cst), "%d situations; %s" % (len(list(dtable.table(leaves, None, atoms))), detail))
+            if region is not None:
+                break
+        if region is None:
+            raise dtable.Undecidable("%s: the definition of the slot tested by %s() was not found" % (fn.nloc(eq), name))
+    region = [split_returns(s, name == "exists") for s in region]
+
+    def atomize(n, run):
+        n = strip_casts(n)
+        if n.get("id") == eq["id"]:
+            return "E", False
+        b = match.binop(n, ("<", ">=", ">", "<=", "!=", "=="))
+        if b:
+            op, l, r = b
+            # slot <= slotuse always holds for the result of the in-node search, so != / == test the bound as well
+            f = match.field_of(r)
+            if ref_of(l) == slotv and f and f[1] == "slotuse" and ref_of(f[0]) == leafv:
+                return {"<": ("B", False), ">=": ("B", True), "!=": ("B", False), "==": ("B", True)}.get(op)
+            f = match.field_of(l)
+            if ref_of(r) == slotv and f and f[1] == "slotuse" and ref_of(f[0]) == leafv:
+                return {">": ("B", False), "<=": ("B", True), "!=": ("B", False), "==": ("B", True)}.get(op)
+            if op in ("!=", "=="):
+                for x, y in ((l, r), (r, l)):
+                    if B.is_null(y) and ref_of(x) == leafv:
+                        return "N", op == "=="
+        if ref_of(n) == leafv or (match.ptr_truth(n) is not None and ref_of(match.ptr_truth(n)) == leafv):
+            return "N", False
+        return None
+    leaves = dtable.explore(_syn("CompoundStmt", region), atomize, fn)
+    atoms = dtable.atoms_of(leaves)
+
+    def outcome(lf):
+        for ev in lf["events"]:
+            if ev[0] in ("expr", "loop") and (writes_to(ev[1], {slotv, leafv}) or passed_by_reference(ev[1], {slotv, leafv})):
+                raise dtable.Undecidable("%s: the slot or the leaf is changed between the search and the hit test" % fn.nloc(ev[1]))
+        kind, payload = lf["stop"]
+        if kind == "end" and follows and follows[0]["k"] == "ReturnStmt":
+            kind, payload = "return", (kids(follows[0])[0] if kids(follows[0]) else None, follows[0])
+        if name == "count":
+            if kind == "end":
+                return "counts the slot"
+            if kind in ("break", "return"):
+                return "stops counting"
+        elif kind == "return":
+            v = peel(payload[0]) if payload and payload[0] is not None else None
+            if name == "exists" and v is not None and (v["k"] == "CXXBoolLiteralExpr" or const_int(v) is not None):
+                return "returns true" if const_int(v) else "returns false"
+            if name == "find" and v is not None:
+                if any("callee" in z and z["callee"]["name"] == "end" for z in walk(v)):
+                    return "returns end()"
+                if v["k"] in ("CXXConstructExpr", "CXXTemporaryObjectExpr", "InitListExpr") and len(kids(v)) == 2 and \
+                        ref_of(kids(v)[0]) == leafv and ref_of(kids(v)[1]) == slotv:
+                    return "returns the position (leaf, slot)"
+            if name == "erase_one_descend" and v is not None and \
+                    any(z["k"] == "DeclRefExpr" and z["ref"]["name"] == "btree_not_found" for z in walk(v)):
+                return "returns btree_not_found"
+            if name == "insert_descend":
+                return "returns the existing entry"
+        elif kind == "end" and name == "erase_one_descend":
+            return "goes on to erase the slot"
+        elif kind == "end" and name == "insert_descend":
+            return "goes on to insert"
+        raise dtable.Undecidable("%s: what %s() does after the hit test is not understood (%s at line %s)"
+                                 % (fn.nloc(eq), name, kind, (payload[1].get("l") if kind == "return" and payload else "?")))
+    on_hit, on_miss = HIT_OUTCOMES[name]
+    dead = name == "insert_descend" and tree.dup       # duplicates allowed: never `already present`
+    if dead:
+        on_hit = on_miss
+    bad = None
+    n_sit = 0
+    for v, lf in dtable.table(leaves, None, atoms):
+        n_sit += 1
+        hit = v.get("B", True) and v.get("E", True) and v.get("N", True)
+        got = outcome(lf)
+        want = on_hit if hit else on_miss
+        if got != want:
+            bad = (v, got, want)
+            break
+    if bad is None and not dead:
+        for a, what in (("B", "tests slot < slotuse"), ("E", "tests key_equal(key, key(slot))")):
+            if a not in atoms:
+                # closed world: every condition between the search and the decision was understood, none of them is this test
+                bad = ({}, "never %s" % what, None)
+                break
+    if bad is not None:
+        v, got, want = bad
+        if want is None:
+            msg = "%s() %s before it decides; a hit is `slot < slotuse && key_equal(key, key(slot))`" % (name, got)
+        elif dead:
+            msg = ("with duplicates allowed insert must never report `already present`, but in situation {%s} it %s"
+                   % (dtable.fmt_val(v), got))
+        else:
+            msg = ("in situation {%s} %s() %s; expected here: %s (a hit is `slot < slotuse && key_equal(key, key(slot))`)"
+                   % (dtable.fmt_val(v), name, got, want))
+        ck.violation("HIT-TEST", fn.qname, "%s:%s" % (name, cst), msg, fn.nloc(eq))
+    else:
+        ck.ok("HIT-TEST", tree.where(fn, cst), "%d situations; hit -> %s, miss -> %s%s"
+              % (n_sit, HIT_OUTCOMES[name][0], on_miss, " (duplicates allowed: the `already present` exit is dead)" if dead else ""))
 
 
 # ------------------------------------------------------------------ duplicate-run walk of erase(iterator)
+def advance_amount(y, var):
+    """c if y is var += c / var -= c / var = var + c / var = c + var / var = var - c / ++var / --var (c a literal), else None"""
+    u = match.unop(y, ("++", "--")) if y["k"] in ("UnaryOperator", "CXXOperatorCallExpr") else None
+    if u and ref_of(u[1]) == var:
+        return 1 if u[0] == "++" else -1
+    b = match.binop(y, ("+=", "-=")) if y["k"] in ("CompoundAssignOperator", "CXXOperatorCallExpr") else None
+    if b and ref_of(b[1]) == var and const_int(b[2]) is not None:
+        return const_int(b[2]) if b[0] == "+=" else -const_int(b[2])
+    b = match.binop(y, ("=",)) if y["k"] in ("BinaryOperator", "CXXOperatorCallExpr") else None
+    if b and ref_of(b[1]) == var:
+        r = match.binop(b[2], ("+", "-"))
+        if r and ref_of(r[1]) == var and const_int(r[2]) is not None:
+            return const_int(r[2]) if r[0] == "+" else -const_int(r[2])
+        if r and r[0] == "+" and ref_of(r[2]) == var and const_int(r[1]) is not None:
+            return const_int(r[1])
+    return None
+
+
 def check_iter_walk(ck, tu, tree):
+    """what the walk does after a child did not hold the iterator's leaf is executed for every situation
+    (slot < / == slotuse) x (order of separator and key): it may only give up when the separator proves the key cannot follow,
+    otherwise it must advance to the next child"""
     fn = tree.one("erase_iter_descend")
     if not tree.dup:
         # unique keys: the leaf of the iterator is always below the first candidate child
@@ -459,154 +841,261 @@ def check_iter_walk(ck, tu, tree):
               nontrivial=False)
         return
     iterp = fn.params[0]["did"]
-    loops = [l for l in match.loops_in(fn.body) if l["k"] in ("WhileStmt", "ForStmt", "DoStmt") and
-             any("callee" in z and z["callee"]["name"] == "erase_iter_descend" for z in walk(l))]
-    if len(loops) != 1:
-        raise ir.AnalysisBroken("%s: child walk loop not found" % fn.full)
-    loop = loops[0]
-    rec = [z for z in walk(loop) if "callee" in z and z["callee"]["name"] == "erase_iter_descend"][0]
-    slotv = ref_of(kids(rec)[1 + B.P_PSLOT])
+    is_rec = lambda z: "callee" in z and z["callee"]["name"] == "erase_iter_descend"      # noqa: E731
+    loops = [l for l in match.loops_in(fn.body) if any(is_rec(z) for z in walk(l))]
+    recs = [z for z in walk(fn.body) if is_rec(z)]
+    if len(loops) != 1 or len(recs) != 1 or loops[0]["k"] not in ("WhileStmt", "ForStmt"):
+        raise dtable.Undecidable("%s: the loop of erase_iter_descend over the candidate children was not found "
+                                 "(%d loops, %d recursive calls)" % (fn.loc, len(loops), len(recs)))
+    loop, rec = loops[0], recs[0]
+    slotv = ref_of(kids(rec)[1 + B.P_PSLOT]) if len(kids(rec)) > 1 + B.P_PSLOT else None
+    if slotv is None:
+        raise dtable.Undecidable("%s: the slot handed to the recursive call is not a variable: %s" % (fn.nloc(rec), dtable.describe(rec)))
+    _, _, inc, body = match.loop_parts(loop)
+    stmts = kids(body) if body is not None and body["k"] == "CompoundStmt" else [body]
+    at = [i for i, s in enumerate(stmts) if s is not None and any(z.get("id") == rec["id"] for z in walk(s))]
+    if not at:
+        raise dtable.Undecidable("%s: the recursive call is not in the body of the walk" % fn.nloc(rec))
+    region = _syn("CompoundStmt", list(stmts[at[0]:]))
+    inside = {y.get("id") for y in walk(region)}
+    for y in walk(loop):
+        if y.get("id") not in inside and "callee" in y and y.get("member_call") and y["callee"].get("record") == BT \
+                and y["callee"]["name"].startswith("key_"):
+            raise dtable.Undecidable("%s: the walk compares keys outside the statements that follow the recursive call: %s"
+                                     % (fn.nloc(y), dtable.describe(y)))
+    inc_ids = {y.get("id") for y in walk(inc)} if inc is not None else set()
+    for y in walk(loop):
+        if y.get("id") not in inside and y.get("id") not in inc_ids and (writes_to_node(y, slotv) or passed_by_reference(y, {slotv})) \
+                and not any(z.get("id") == rec["id"] for z in walk(y)):
+            raise dtable.Undecidable("%s: the walk changes the slot outside the statements that follow the recursive call: %s"
+                                     % (fn.nloc(y), dtable.describe(y)))
+    use = value_use(fn, rec)
+    resv = use[1] if use and use[0] == "var" else None
 
-    def classify(e):
-        if "callee" in e and e["callee"]["name"] == "key" and e.get("member_call") and ref_of(kids(e)[0]) == iterp:
-            return "key"
+    def reads_slot(e):
+        """e is inner->slotkey[slot] / inner->key(slot)"""
+        e = strip_casts(e)
         ip = match.index_parts(e)
         if ip:
             f = match.field_of(ip[0])
-            if f and f[1] == "slotkey" and ref_of(ip[1]) == slotv:
-                return "slot"
-        return None
-    n_exits = 0
-    for ifs in [z for z in walk(match.loop_parts(loop)[3]) if z["k"] == "IfStmt"]:
-        cond, then = kids(ifs)[0], kids(ifs)[1]
-        preds = [z for z in walk(cond) if "callee" in z and z.get("member_call") and z["callee"].get("record") == BT
-                 and z["callee"]["name"].startswith("key_")]
-        if not preds:
-            continue
-        gives_up = any(z["k"] in ("ReturnStmt", "BreakStmt") for z in walk(then))
-        if not gives_up:
-            continue
-        n_exits += 1
-        ke = KeyEval(tu, classify)
+            if f and f[1] == "slotkey" and ref_of(f[0]) is not None and ref_of(ip[1]) == slotv:
+                return True
+        return "callee" in e and e["callee"]["name"] == "key" and e.get("member_call") and len(kids(e)) == 2 and \
+            ref_of(kids(e)[0]) is not None and ref_of(kids(e)[1]) == slotv
 
-        def atomize(n, run, ke=ke, preds=preds):
-            n = strip_casts(n)
-            if any(n.get("id") == p["id"] for p in preds):
-                return ("P", n["id"]), False
-            b = match.binop(n, ("<", ">=", "!=", "=="))
-            if b:
-                f = match.field_of(b[2])
-                if ref_of(b[1]) == slotv and f and f[1] == "slotuse":
-                    return {"<": ("B", False), ">=": ("B", True), "!=": ("B", False), "==": ("B", True)}[b[0]]
+    def classify(e):
+        if "callee" in e and e["callee"]["name"] == "key" and e.get("member_call") and len(kids(e)) == 1 and ref_of(kids(e)[0]) == iterp:
+            return "key"
+        if reads_slot(e):
+            return "slot"
+        return None
+
+    def is_pred(n):
+        return "callee" in n and n.get("member_call") and n["callee"].get("record") == BT and n["callee"]["name"].startswith("key_") \
+            and kids(n) and strip_casts(kids(n)[0])["k"] == "This"
+
+    def bound(n):
+        """True / False if n tests slot < slotuse / its negation (slot <= slotuse holds inside the walk), else None"""
+        b = match.binop(n, ("<", ">=", ">", "<=", "!=", "=="))
+        if not b:
             return None
-        bad = None
-        for kv in SEARCH_VALS:
-            for bv in (True, False):
-                def atomize2(n, run, kv=kv, bv=bv):
-                    n = strip_casts(n)
-                    if any(n.get("id") == p["id"] for p in preds):
-                        if not bv:
-                            return ("OOB",), False
-                        return ke.truth(n, kv)
-                    r = atomize(n, run)
-                    if r is not None and r[0] == "B":
-                        return (not bv) if r[1] else bv
-                    return None
-                leaves = dtable.explore(cond, atomize2, fn, as_expr=True)
-                for lf in leaves:
-                    if ("OOB",) in lf["val"]:
-                        bad = bad or ("the stop test reads slotkey[slot] although slot == slotuse (there is no such separator)", kv)
+        op, l, r = b
+        f = match.field_of(r)
+        if ref_of(l) == slotv and f and f[1] == "slotuse" and ref_of(f[0]) is not None:
+            return {"<": True, "!=": True, ">=": False, "==": False}.get(op)
+        f = match.field_of(l)
+        if ref_of(r) == slotv and f and f[1] == "slotuse" and ref_of(f[0]) is not None:
+            return {">": True, "!=": True, "<=": False, "==": False}.get(op)
+        return None
+
+    def child_failed(n):
+        """n is <result of the recursive call>.has(btree_not_found)"""
+        if not ("callee" in n and n["callee"]["name"] == "has" and n.get("member_call") and len(kids(n)) == 2):
+            return False
+        if not any(z["k"] == "DeclRefExpr" and z["ref"]["name"] == "btree_not_found" for z in walk(kids(n)[1])):
+            return False
+        recv = kids(n)[0]
+        return (resv is not None and ref_of(recv) == resv) or any(z.get("id") == rec["id"] for z in walk(recv))
+    bad = None
+    n_sit = 0
+    gives_up_somewhere = False
+    ke = KeyEval(tu, classify)
+    for kv in SEARCH_VALS:
+        for bv in (True, False):
+            def atomize(n, run, kv=kv, bv=bv):
+                n = strip_casts(n)
+                if is_pred(n):
+                    if not bv and any(reads_slot(z) for z in walk(n)):
+                        return ("OOB",), False
+                    return ke.truth(n, kv)
+                t = bound(n)
+                if t is not None:
+                    return t == bv
+                if child_failed(n):
+                    return "F", False
+                return None
+            leaves = dtable.explore(region, atomize, fn)
+            for lf in leaves:
+                if lf["val"].get("F") is False:
+                    continue        # the child held the leaf: not part of the walk
+                n_sit += 1
+                kind, payload = lf["stop"]
+                where = payload[1] if kind == "return" and payload else loop
+                if ("OOB",) in lf["val"]:
+                    bad = bad or ("the stop test reads slotkey[slot] although slot == slotuse (there is no such separator)", kv, where)
+                    continue
+                if kind in ("return", "break"):
+                    gives_up_somewhere = True
+                    if not bv:
+                        bad = bad or ("the walk gives up at the last child without a separator to justify it", kv, where)
                         continue
-                    if lf["result"] and bv:
-                        sk_key, key_sk = kv[("slot", "key")], kv[("key", "slot")]
-                        if sk_key:
-                            continue      # infeasible: the walk starts at find_lower(key), separators ascend
-                        if not key_sk:
-                            bad = bad or ("the walk over a run of equal keys gives up at a child whose separator equals the key "
-                                          "(less(sep,key)=false, less(key,sep)=false); entries with that key may continue in the next child, "
-                                          "so erase(iterator) silently fails where std::multiset::erase(iterator) removes the element", kv)
-                    if lf["result"] and not bv:
-                        bad = bad or ("the walk gives up at the last child without a separator to justify it", kv)
-        if bad:
-            ck.violation("ITER-WALK-STOP", fn.qname, "stop-test", bad[0] + ": " + dtable.describe(cond), fn.nloc(ifs))
-        else:
-            ck.ok("ITER-WALK-STOP", tree.where(fn), "stop test %s only fires when the separator proves the key cannot follow"
-                  % dtable.describe(cond))
-    # after a failed child the walk advances to the next child
-    incs = [z for z in walk(loop) if match.unop(z, ("++",)) and z["k"] == "UnaryOperator" and ref_of(match.unop(z, ("++",))[1]) == slotv]
-    if not incs:
-        ck.violation("ITER-WALK-STOP", fn.qname, "advance", "the walk never advances to the next child", fn.nloc(loop))
-    if n_exits == 0:
-        ck.ok("ITER-WALK-STOP", tree.where(fn), "no early exit: all children from find_lower(key) on are searched")
+                    sk_key, key_sk = kv[("slot", "key")], kv[("key", "slot")]
+                    if sk_key:
+                        continue      # infeasible: the walk starts at find_lower(key), separators ascend
+                    if not key_sk:
+                        bad = bad or ("the walk over a run of equal keys gives up at a child whose separator equals the key "
+                                      "(less(sep,key)=false, less(key,sep)=false); entries with that key may continue in the next child, "
+                                      "so erase(iterator) silently fails where std::multiset::erase(iterator) removes the element", kv, where)
+                    continue
+                if kind not in ("end", "continue"):
+                    raise dtable.Undecidable("%s: the walk leaves the loop body by %s" % (fn.nloc(loop), kind))
+                # the walk goes on: it must have advanced to the next child
+                writes = []
+                for ev in lf["events"]:
+                    if ev[0] == "loop" and writes_to(ev[1], {slotv}):
+                        raise dtable.Undecidable("%s: the slot is changed inside a nested loop of the walk" % fn.nloc(ev[1]))
+                    if ev[0] == "expr":
+                        if passed_by_reference(ev[1], {slotv}) and not any(z.get("id") == rec["id"] for z in walk(ev[1])):
+                            raise dtable.Undecidable("%s: the slot is handed to a call that may change it" % fn.nloc(ev[1]))
+                        writes += [y for y in walk(ev[1]) if writes_to_node(y, slotv)]
+                if loop["k"] == "ForStmt" and inc is not None:
+                    writes += [y for y in walk(inc) if writes_to_node(y, slotv)]
+                if not writes:
+                    bad = bad or ("after a child that does not hold the leaf the walk never advances to the next child", kv, loop)
+                elif len(writes) == 1 and advance_amount(writes[0], slotv) not in (None, 1):
+                    bad = bad or ("after a child that does not hold the leaf the walk moves by %d children instead of one"
+                                  % advance_amount(writes[0], slotv), kv, writes[0])
+                elif not (len(writes) == 1 and advance_amount(writes[0], slotv) == 1):
+                    raise dtable.Undecidable("%s: how the walk advances the slot is not understood: %s"
+                                             % (fn.nloc(writes[0]), dtable.describe(writes[0])))
+    if bad:
+        ck.violation("ITER-WALK-STOP", fn.qname, "advance" if ("never advances" in bad[0] or "moves by" in bad[0]) else "stop-test",
+                     "%s [less(sep,key)=%s, less(key,sep)=%s]" % (bad[0], bad[1][("slot", "key")], bad[1][("key", "slot")]), fn.nloc(bad[2]))
+    elif gives_up_somewhere:
+        ck.ok("ITER-WALK-STOP", tree.where(fn), "%d situations: the walk only gives up when the separator proves the key cannot follow, "
+              "otherwise it advances by one child" % n_sit)
+    else:
+        ck.ok("ITER-WALK-STOP", tree.where(fn), "%d situations, no early exit: all children from find_lower(key) on are searched" % n_sit)
+
+
+def writes_to_node(y, var):
+    """the node y itself is an assignment / increment / decrement of var"""
+    w = match.unop(y, ("++", "--")) if y["k"] in ("UnaryOperator", "CXXOperatorCallExpr") else None
+    if w is None and y["k"] in ("BinaryOperator", "CompoundAssignOperator", "CXXOperatorCallExpr"):
+        w = match.binop(y, ("=", "+=", "-=", "*=", "/=", "%=", "|=", "&=", "^=", ">>=", "<<="))
+    return bool(w) and ref_of(w[1]) == var
 
 
 # ------------------------------------------------------------------ sibling bookkeeping of the descents
+class SiblingRoles(B.Roles):
+    """like Roles, but a local that is assigned anywhere is never identified with the parameter it was initialised from"""
+
+    def __init__(self, fn):
+        B.Roles.__init__(self, fn)
+        self.written = {d for d in self.inits if writes_to(fn.body, {d})} | set(self.assigns)
+
+    def param_of(self, e, depth=0):
+        e = strip_casts(e)
+        d = ref_of(e) if e is not None else None
+        if d is None or depth > 4:
+            return None
+        if d in self.pidx:
+            return self.pidx[d]
+        if d in self.inits and d not in self.written:
+            return self.param_of(self.inits[d], depth + 1)
+        return None
+
+
 def check_siblings(ck, tree):
+    """the statements that prepare the recursive call are executed for every situation (slot first / last child, left / right
+    neighbour null); the values handed to the child as (curr, left, right, left_parent, right_parent, parent, parentslot) are
+    classified symbolically and compared with what the B+ tree shape requires"""
     for name in ("erase_one_descend", "erase_iter_descend"):
         fn = tree.one(name)
-        roles = B.Roles(fn)
+        roles = SiblingRoles(fn)
         recs = [z for z in walk(fn.body) if "callee" in z and z["callee"]["name"] == name]
         if len(recs) != 1:
-            raise ir.AnalysisBroken("%s: expected one recursive call, found %d" % (fn.full, len(recs)))
+            raise dtable.Undecidable("%s: expected one recursive call in %s, found %d" % (fn.loc, name, len(recs)))
         rec = recs[0]
         args = kids(rec)[1:]
+        if len(args) <= B.P_PSLOT:
+            raise dtable.Undecidable("%s: argument list of the recursive call not understood: %s" % (fn.nloc(rec), dtable.describe(rec)))
         slotv = ref_of(args[B.P_PSLOT])
-        curr_ok = roles.param_of(args[B.P_PARENT]) == B.P_CURR
-        child = match.index_parts(args[B.P_CURR])
-        child_ok = child is not None and match.field_of(child[0]) and match.field_of(child[0])[1] == "childid" and \
-            roles.param_of(match.field_of(child[0])[0]) == B.P_CURR and ref_of(child[1]) == slotv
-        if slotv is None or not curr_ok or not child_ok:
-            ck.violation("DESCENT-SIBLINGS", fn.qname, name + ":recursion",
-                         "the recursive call must descend into childid[slot] with (parent, parentslot) = (this node, slot): %s"
-                         % dtable.describe(rec), fn.nloc(rec))
-            continue
-        mv = {i: ref_of(args[i]) for i in (B.P_LEFT, B.P_RIGHT, B.P_LP, B.P_RP)}
-        # the two if/else blocks that compute the four values
-        holder = fn.parent(rec)
-        while holder is not None and holder["k"] != "CompoundStmt":
-            holder = fn.parent(holder)
-        blocks = [s for s in kids(holder) if s["k"] == "IfStmt" and any(
-            match.binop(z, ("=",)) and z["k"] == "BinaryOperator" and ref_of(match.binop(z, ("=",))[1]) in mv.values() for z in walk(s))]
+        if slotv is None:
+            raise dtable.Undecidable("%s: the slot handed to the recursive call is not a variable: %s"
+                                     % (fn.nloc(rec), dtable.describe(args[B.P_PSLOT])))
 
         def atomize(n, run):
+            n0 = n
             n = strip_casts(n)
-            b = match.binop(n, ("==", "!="))
+            if match.positive_test(n0, slotv) or match.positive_test(n, slotv):
+                return "first", True
+            b = match.binop(n, ("==", "!=", "<", ">=", ">", "<="))
             if b:
                 op, l, r = b
-                if ref_of(l) == slotv:
-                    if const_int(r) == 0:
-                        return "first", op == "!="
-                    f = match.field_of(r)
-                    if f and f[1] == "slotuse" and roles.param_of(f[0]) == B.P_CURR:
-                        return "last", op == "!="
-                for x, y in ((l, r), (r, l)):
-                    if B.is_null(y) and roles.param_of(x) in (B.P_LEFT, B.P_RIGHT):
-                        return ("null", roles.param_of(x)), op == "!="
+                if ref_of(l) == slotv and ((op in ("==", "<=") and const_int(r) == 0) or (op == "<" and const_int(r) == 1)):
+                    return "first", False
+                if ref_of(r) == slotv and ((op in ("==", ">=") and const_int(l) == 0) or (op == ">" and const_int(l) == 1)):
+                    return "first", False
+                # slot <= slotuse holds for the result of the in-node search
+                f = match.field_of(r)
+                if ref_of(l) == slotv and f and f[1] == "slotuse" and roles.param_of(f[0]) == B.P_CURR:
+                    return {"==": ("last", False), ">=": ("last", False), "!=": ("last", True), "<": ("last", True)}.get(op)
+                f = match.field_of(l)
+                if ref_of(r) == slotv and f and f[1] == "slotuse" and roles.param_of(f[0]) == B.P_CURR:
+                    return {"==": ("last", False), "<=": ("last", False), "!=": ("last", True), ">": ("last", True)}.get(op)
+                if op in ("==", "!="):
+                    for x, y in ((l, r), (r, l)):
+                        if B.is_null(y) and roles.param_of(x) in (B.P_LEFT, B.P_RIGHT):
+                            return ("null", roles.param_of(x)), op == "!="
+            pt = match.ptr_truth(n0) or match.ptr_truth(n)
+            if pt is not None and roles.param_of(pt) in (B.P_LEFT, B.P_RIGHT):
+                return ("null", roles.param_of(pt)), True
             return None
 
-        def value_kind(e):
+        def kind(e, v, got, depth=0):
+            """symbolic value of a node pointer expression in situation v: 'null' | a parameter name | 'X.child[off]' | None"""
             e = strip_casts(e)
+            if e is None or depth > 8:
+                return None
             if B.is_null(e):
                 return "null"
+            if e["k"] == "ParenExpr":
+                return kind(kids(e)[0], v, got, depth + 1)
             if e["k"] == "ConditionalOperator":
                 c, a, b = kids(e)
-                r = atomize(c, None)
-                if r is not None and not isinstance(r, bool) and r[0][0] == "null":
-                    side = B.NAMES[r[0][1]]
-                    ka, kb = value_kind(a), value_kind(b)
-                    if r[1]:
-                        ka, kb = kb, ka
-                    if ka == "null" and kb.startswith(side + ".child["):
-                        return "%s.child[*]|null" % side
-                return dtable.describe(e)
-            p = roles.param_of(e)
-            if p is not None:
-                return B.NAMES[p]
+                try:
+                    t = dtable.Run(atomize, v, fn).truth(c)
+                except dtable._Need:
+                    return None
+                return kind(a if t else b, v, got, depth + 1)
+            d = ref_of(e)
+            if d is not None:
+                if d in got:
+                    return kind(got[d], v, got, depth + 1)
+                p = roles.param_of(e)
+                if p is not None:
+                    return B.NAMES[p]
+                if d in roles.inits and d not in roles.written:
+                    return kind(roles.inits[d], v, got, depth + 1)
+                return None
             ip = match.index_parts(e)
             if ip:
                 f = match.field_of(ip[0])
                 if f and f[1] == "childid":
                     owner = roles.param_of(f[0])
+                    if owner is None:
+                        return None
                     idx = strip_casts(ip[1])
                     if ref_of(idx) == slotv:
                         off = "slot"
@@ -616,60 +1105,117 @@ def check_siblings(ck, tree):
                         bb = match.binop(idx, ("+", "-"))
                         if bb and ref_of(bb[1]) == slotv and const_int(bb[2]) is not None:
                             off = "slot%s%d" % (bb[0], const_int(bb[2]))
+                        elif bb and bb[0] == "+" and ref_of(bb[2]) == slotv and const_int(bb[1]) is not None:
+                            off = "slot+%d" % const_int(bb[1])
                         elif bb and match.field_of(bb[1]) and match.field_of(bb[1])[1] == "slotuse" and const_int(bb[2]) is not None \
                                 and roles.param_of(match.field_of(bb[1])[0]) == owner:
                             # childid[n->slotuse - 1]: index by separator count
                             off = "slotuse%s%d" % (bb[0], const_int(bb[2]))
+                        elif match.field_of(idx) and match.field_of(idx)[1] == "slotuse" and roles.param_of(match.field_of(idx)[0]) == owner:
+                            off = "slotuse"
                         else:
-                            off = dtable.describe(idx)
-                    return "%s.child[%s]" % (B.NAMES.get(owner, "?"), off)
-            return dtable.describe(e)
-        seq = {"k": "CompoundStmt", "ch": blocks, "id": -1}
-        leaves = dtable.explore(seq, atomize, fn)
+                            return None
+                    return "%s.child[%s]" % (B.NAMES[owner], off)
+            return None
+        # the statements between the first definition of an argument variable and the recursive call
+        holder, inner = fn.parent(rec), rec
+        while holder is not None and holder["k"] != "CompoundStmt":
+            holder, inner = fn.parent(holder), holder
+        if holder is None:
+            raise dtable.Undecidable("%s: the recursive call is not inside a block" % fn.nloc(rec))
+        stmts = kids(holder)
+        at = [i for i, s in enumerate(stmts) if s is not None and s.get("id") == inner.get("id")][0]
+        argvars = {ref_of(args[i]) for i in (B.P_CURR, B.P_LEFT, B.P_RIGHT, B.P_LP, B.P_RP, B.P_PARENT)
+                   if ref_of(args[i]) is not None and roles.param_of(args[i]) is None}
+        start = at
+        for i in range(at):
+            s = stmts[i]
+            if s is None:
+                continue
+            if (s["k"] == "DeclStmt" and any(x.get("did") in argvars for x in kids(s))) or writes_to(s, argvars):
+                start = i
+                break
+        region = _syn("CompoundStmt", list(stmts[start:at]))
+        # a variable written outside the executed statements (before them, or through its address) is not tracked
+        for y in walk(fn.body):
+            if y["k"] == "UnaryOperator" and y.get("op") == "&" and ref_of(kids(y)[0]) in argvars:
+                raise dtable.Undecidable("%s: the address of an argument variable of the recursive call is taken" % fn.nloc(y))
+        inside = {y.get("id") for y in walk(region)}
+        for y in walk(fn.body):
+            if y.get("id") not in inside and any(writes_to_node(y, d) for d in argvars):
+                raise dtable.Undecidable("%s: an argument variable of the recursive call is written outside the statements that "
+                                         "prepare the call" % fn.nloc(y))
+        leaves = dtable.explore(region, atomize, fn)
         atoms = dtable.atoms_of(leaves)
+        for a in ("first", "last", ("null", B.P_LEFT), ("null", B.P_RIGHT)):
+            if a not in atoms:
+                atoms.append(a)
         bad = None
         n = 0
         for v, lf in dtable.table(leaves, None, atoms):
+            if lf["stop"][0] != "end":
+                continue        # this path leaves before the recursive call
             n += 1
             got = {}
             for ev in lf["events"]:
+                if ev[0] == "loop" and writes_to(ev[1], argvars | {slotv}):
+                    raise dtable.Undecidable("%s: a loop writes an argument variable of the recursive call" % fn.nloc(ev[1]))
+                if ev[0] == "decl" and ev[1].get("did") in argvars and kids(ev[1]) and kids(ev[1])[0] is not None:
+                    got[ev[1]["did"]] = kids(ev[1])[0]
                 if ev[0] != "expr":
                     continue
-                e = ev[1]
-                b = match.binop(e, ("=",))
-                if b and ref_of(b[1]) in mv.values():
-                    rhs = b[2]
-                    # conditional already resolved by dtable.effect? (left == nullptr) ? nullptr : ...
-                    got[ref_of(b[1])] = rhs
+                if writes_to(ev[1], {slotv}) or passed_by_reference(ev[1], argvars | {slotv}):
+                    raise dtable.Undecidable("%s: the slot or an argument variable may change in a way that is not tracked while the "
+                                             "arguments of the recursive call are prepared: %s" % (fn.nloc(ev[1]), dtable.describe(ev[1])))
+                b = match.binop(ev[1], ("=",)) if ev[1]["k"] in ("BinaryOperator", "CXXOperatorCallExpr") else None
+                if b and ref_of(b[1]) in argvars:
+                    got[ref_of(b[1])] = b[2]
+                elif writes_to(ev[1], argvars):
+                    raise dtable.Undecidable("%s: assignment to an argument variable of the recursive call not understood: %s"
+                                             % (fn.nloc(ev[1]), dtable.describe(ev[1])))
             want = {
-                # the last child of an inner node with s separators is child[s]
-                mv[B.P_LEFT]: ("curr.child[slot-1]" if not v["first"] else "left.child[*]|null"),
-                mv[B.P_LP]: "curr" if not v["first"] else "left_parent",
-                mv[B.P_RIGHT]: ("curr.child[slot+1]" if not v["last"] else "right.child[*]|null"),
-                mv[B.P_RP]: "curr" if not v["last"] else "right_parent",
+                B.P_CURR: ("curr.child[slot]",), B.P_PARENT: ("curr",),
+                # the last child of an inner node with s separators is child[s]; a neighbour below a *different* parent is only
+                # tested for null-ness and fill level, it is never a merge or shift partner (UNDERFLOW-LEGAL proves that), so any
+                # child of the neighbouring inner node is accepted there, provided it is null exactly when that node is
+                # (the library passes left->childid[left->slotuse - 1], which is not even the adjacent child)
+                B.P_LEFT: ("curr.child[slot-1]",) if not v["first"] else ("null",) if v[("null", B.P_LEFT)] else ("left.child[", "*"),
+                B.P_LP: ("curr",) if not v["first"] else ("left_parent",),
+                B.P_RIGHT: ("curr.child[slot+1]",) if not v["last"] else ("null",) if v[("null", B.P_RIGHT)] else ("right.child[", "*"),
+                B.P_RP: ("curr",) if not v["last"] else ("right_parent",),
             }
-            for var, w in want.items():
-                g = value_kind(got[var]) if var in got else "<unset>"
-                if not same_value(g, w):
-                    nm = [k for k, x in mv.items() if x == var][0]
-                    bad = (v, "my%s is %s, expected %s" % (B.NAMES[nm], g, w), got.get(var))
+            for i, w in want.items():
+                d = ref_of(args[i])
+                if d in argvars and d not in got and d in roles.written and d in roles.inits:
+                    raise dtable.Undecidable("%s: %s is initialised outside the statements that prepare the recursive call and "
+                                             "assigned only on some paths" % (fn.nloc(args[i]), dtable.describe(args[i])))
+                if d in argvars and d not in got and d not in roles.inits:
+                    g = "<unset>"
+                else:
+                    g = kind(args[i], v, got)
+                    if g is None:
+                        e = got.get(d, args[i])
+                        raise dtable.Undecidable("%s: value handed to the child as %s not understood: %s"
+                                                 % (fn.nloc(e), B.NAMES[i], dtable.describe(e)))
+                ok = g.startswith(w[0]) if len(w) == 2 else g == w[0]
+                if not ok:
+                    shown = w[0] + "*]" if len(w) == 2 else w[0]
+                    what = {B.P_CURR: "the child descended into", B.P_PARENT: "the parent handed to the child"}.get(i, "my" + B.NAMES[i])
+                    bad = (v, i, "%s is %s, expected %s" % (what, g, shown), got.get(d, args[i]))
                     break
             if bad:
                 break
         if bad:
-            ck.violation("DESCENT-SIBLINGS", fn.qname, name + ":" + bad[1].split(" ")[0],
+            v, i, text, at_node = bad
+            sit = {("%s(%s)" % (k[0], B.NAMES[k[1]]) if isinstance(k, tuple) else str(k)): x for k, x in v.items()}
+            sig = name + (":recursion" if i in (B.P_CURR, B.P_PARENT) else ":my" + B.NAMES[i])
+            ck.violation("DESCENT-SIBLINGS", fn.qname, sig,
                          "in situation {%s}: %s — the neighbours handed to the child decide which nodes are merged or shifted"
-                         % (dtable.fmt_val(bad[0]), bad[1]), fn.nloc(bad[2]) if bad[2] is not None else fn.loc)
+                         % (dtable.fmt_val(sit), text), fn.nloc(at_node) if at_node is not None and at_node.get("l") else fn.nloc(rec))
+        elif n == 0:
+            raise dtable.Undecidable("%s: no path reaches the recursive call of %s" % (fn.nloc(rec), name))
         else:
-            ck.ok("DESCENT-SIBLINGS", tree.where(fn), "%d situations (first/last slot x null neighbours): neighbours and their parents as required" % n)
-
-
-def same_value(got, want):
-    # a neighbour below a *different* parent is only tested for null-ness and fill level; it is never a merge or
-    # shift partner (UNDERFLOW-LEGAL proves that), so any child of the neighbouring inner node is accepted there,
-    # provided it is null exactly when the neighbouring node is.
-    # (the library passes left->childid[left->slotuse - 1], which is not even the adjacent child.)
-    return got == want
+            ck.ok("DESCENT-SIBLINGS", tree.where(fn), "%d situations (first/last slot x null neighbours): child, neighbours and their parents as required" % n)
 
 
 # ------------------------------------------------------------------ front ends
@@ -711,13 +1257,17 @@ def check_frontends(ck, tu):
             if f.name != "get" or not f.record:
                 continue
         for f in [x for x in tu.functions if x.record == rec + "::key_of_value" and x.name == "get"]:
-            r = strip_casts(B.single_return(f))
+            r = peel(returned_expr(f))
             p = f.params[0]["did"]
+            fo = match.field_of(r)
             if kind == "set":
                 good = ref_of(r) == p
             else:
-                fo = match.field_of(r)
                 good = fo is not None and fo[1] == "first" and ref_of(fo[0]) == p
+            # positive evidence of a wrong key: a different member of the entry is returned
+            wrong = fo is not None and ref_of(fo[0]) == p and not good
+            if not good and not wrong:
+                raise dtable.Undecidable("%s: the key extracted by %s is not understood: %s" % (f.loc, f.qname, dtable.describe(r)))
             if not good:
                 ck.violation("FRONTEND-FLAGS", f.qname, "key_of_value", "the key of a %s entry must be %s, found %s"
                              % (kind, "the value itself" if kind == "set" else "value.first", dtable.describe(r)), f.loc)
@@ -756,6 +1306,43 @@ def split_targs(ty):
 
 
 CMP_OPS = ("operator==", "operator!=", "operator<", "operator>", "operator<=", "operator>=")
+_MIRROR = {"==": "==", "!=": "!=", "<": ">", ">": "<", "<=": ">=", ">=": "<="}
+_NEGATE = {"==": "!=", "!=": "==", "<": ">=", ">=": "<", ">": "<=", "<=": ">"}
+
+
+def compared_relation(e, other):
+    """the relation `this REL other` that the expression computes from the two trees (or the two front ends themselves):
+    tree_ OP other.tree_ | other.tree_ OP tree_ | *this OP other | other OP *this | !(...) ; None if not of that form"""
+    e = peel(e)
+    if e is None:
+        return None
+    u = match.unop(e, ("!",))
+    if u:
+        inner = compared_relation(u[1], other)
+        return _NEGATE[inner] if inner else None
+    b = match.binop(e, tuple(_MIRROR))
+    if not b:
+        return None
+
+    def side(x):
+        x = peel(x)
+        if match.this_field(x) == "tree_":
+            return "mine"
+        f = match.field_of(x)
+        if f is not None and f[1] == "tree_" and ref_of(f[0]) == other:
+            return "other"
+        if ref_of(x) == other:
+            return "other"
+        d = match.deref_of(x)
+        if d is not None and strip_casts(d)["k"] == "This":
+            return "mine"
+        return None
+    l, r = side(b[1]), side(b[2])
+    if (l, r) == ("mine", "other"):
+        return b[0]
+    if (l, r) == ("other", "mine"):
+        return _MIRROR[b[0]]
+    return None
 
 
 def check_forward(ck, f, rec, dup):
@@ -764,15 +1351,14 @@ def check_forward(ck, f, rec, dup):
     sig = "%s:%s:%d" % (f.name, cst, len(f.params))
     pdids = [p["did"] for p in f.params]
     if f.name in CMP_OPS:
-        r = B.single_return(f)
-        b = match.binop(r)
-        okc = False
-        if b:
-            l, rr = match.this_field(b[1]), match.field_of(b[2])
-            okc = ("operator" + b[0]) == f.name and l == "tree_" and rr is not None and rr[1] == "tree_" and ref_of(rr[0]) == pdids[0]
-        if not okc:
-            ck.violation("FRONTEND-FORWARD", f.qname, sig, "%s must compare tree_ %s other.tree_; found %s"
-                         % (f.name, f.name[8:], dtable.describe(r)), f.loc)
+        r = returned_expr(f)
+        rel = compared_relation(r, pdids[0]) if len(pdids) == 1 else None
+        if rel is None:
+            raise dtable.Undecidable("%s: %s::%s does not compare the two trees in a recognised way: %s"
+                                     % (f.loc, rec, f.name, dtable.describe(r)))
+        if "operator" + rel != f.name:
+            ck.violation("FRONTEND-FORWARD", f.qname, sig, "%s must compare tree_ %s other.tree_; found %s, which is the relation %s"
+                         % (f.name, f.name[8:], dtable.describe(r), rel), f.loc)
         else:
             ck.ok("FRONTEND-FORWARD", "%s::%s" % (rec, f.name), "tree_ %s other.tree_" % f.name[8:], nontrivial=False)
         return
@@ -784,22 +1370,40 @@ def check_forward(ck, f, rec, dup):
               nontrivial=False)
         return
     if len(calls) != 1:
-        ck.violation("FRONTEND-FORWARD", f.qname, sig, "%s() must forward to exactly one member of the tree; found %d calls"
-                     % (f.name, len(calls)), f.loc)
-        return
+        raise dtable.Undecidable("%s: %s::%s() is not a plain forward to one member of the tree (%d calls on tree_)"
+                                 % (f.loc, rec, f.name, len(calls)))
     c = calls[0]
+    # a plain forward: the call is the whole statement / the whole returned value
+    stmts = [s for s in kids(f.body) if s is not None and s["k"] != "NullStmt"]
+    plain = len(stmts) == 1 and ((stmts[0]["k"] == "ReturnStmt" and kids(stmts[0]) and peel(kids(stmts[0])[0]).get("id") == c.get("id"))
+                                 or peel(stmts[0]).get("id") == c.get("id"))
     if c["callee"]["name"] != want:
+        if not plain:
+            raise dtable.Undecidable("%s: %s::%s() uses BTree::%s() in a way that is not a plain forward"
+                                     % (f.nloc(c), rec, f.name, c["callee"]["name"]))
         ck.violation("FRONTEND-FORWARD", f.qname, sig, "%s() forwards to BTree::%s()" % (f.name, c["callee"]["name"]), f.nloc(c))
         return
     # parameters in order
-    used = []
+    inits, assigns = B.local_inits(f)
+
+    def params_in(a, depth=0):
+        """(parameter ids read by the argument in order, the argument is nothing but one parameter)"""
+        a0 = peel(a)
+        d = ref_of(a0)
+        if d is not None and d not in pdids and d in inits and d not in assigns and depth < 4:
+            return params_in(inits[d], depth + 1)
+        ids = [z["ref"]["id"] for z in walk(a) if z["k"] == "DeclRefExpr" and z["ref"]["id"] in pdids]
+        return ids, d in pdids
+    used, simple = [], True
     for a in kids(c)[1:]:
-        if a["k"] == "DefaultArg":
+        if a is None or a["k"] == "DefaultArg":
             continue
-        for z in walk(a):
-            if z["k"] == "DeclRefExpr" and z["ref"]["id"] in pdids:
-                used.append(z["ref"]["id"])
+        ids, s = params_in(a)
+        used += ids
+        simple = simple and s
     if used != pdids:
+        if not (simple and plain):
+            raise dtable.Undecidable("%s: cannot tell how %s::%s() passes its parameters on: %s" % (f.nloc(c), rec, f.name, dtable.describe(c)))
         ck.violation("FRONTEND-FORWARD", f.qname, sig, "%s() does not pass its parameters in order: %s"
                      % (f.name, dtable.describe(c)), f.nloc(c))
         return
@@ -812,16 +1416,62 @@ def check_forward(ck, f, rec, dup):
 
 
 # ------------------------------------------------------------------ iterator steps, decided semantically
+def _step_exec_class():
+    from engine import absexec
+
+    class StepExec(absexec.Exec):
+        """iterator step executor: a by-value copy of *this is a snapshot of the position; the pre/post forms of the same
+        class may call each other on *this"""
+
+        def __init__(self, fn, tree):
+            absexec.Exec.__init__(self, fn, {"leaf": 4, "inner": 4}, tu=tree,
+                                  stubs={"operator++": self._twin, "operator--": self._twin})
+
+
+        def snapshot(self):
+            return ("copy", self.this.get("curr_leaf"), self.this.get("curr_slot"))
+
+        @staticmethod
+        def _twin(ex, e):
+            args = kids(e)
+            if not args or e["callee"].get("record") != ex.fn.record or e["callee"].get("did") == ex.fn.did:
+                return NotImplemented
+            a0 = strip_casts(args[0])
+            d = match.deref_of(a0)
+            if not (a0["k"] == "This" or (d is not None and strip_casts(d)["k"] == "This")):
+                return NotImplemented
+            callee = ex.tu.by_did.get(e["callee"].get("did"))
+            if callee is None or callee.body is None or ex._depth >= 2:
+                return NotImplemented
+            r = ex._inline(callee, [a for a in args[1:] if a is not None and a["k"] != "DefaultArg"])
+            return r
+
+        def stmt(self, s):
+            absexec.Exec.stmt(self, s)
+            if s is not None and s["k"] == "DeclStmt":
+                for v in kids(s):
+                    ty = (v.get("ty") or "").rstrip()
+                    if self.env.get(v.get("did")) == ("thisobj",) and not ty.endswith("&") and not ty.endswith("*"):
+                        self.env[v["did"]] = self.snapshot()
+
+        def store(self, l, v):
+            if v == ("thisobj",) and l[0] == "var":
+                v = self.snapshot()
+            absexec.Exec.store(self, l, v)
+    return StepExec
+
+
 def check_iter_steps(ck, tree):
     """every ++/-- of the four iterator classes is executed abstractly on a chain of three leaves (the neighbours may be
     missing) for every position; the result must denote the neighbouring element of the global sequence in canonical form
     (forward: slot < slotuse except end() = (tail, slotuse); reverse: slot >= 1 except rend() = (head, 0))"""
     from engine import absexec
+    StepExec = _step_exec_class()
     for cls, fwd in (("iterator", True), ("const_iterator", True), ("reverse_iterator", False), ("const_reverse_iterator", False)):
         for op in ("operator++", "operator--"):
             fns = tree.find(op, BT + "::" + cls)
-            if len(fns) != 2:
-                raise ir.AnalysisBroken("%s::%s: expected the pre and the post form, found %d" % (cls, op, len(fns)))
+            if len(fns) != 2 or sorted(len(f.params) for f in fns) != [0, 1]:
+                raise dtable.Undecidable("%s::%s: expected the pre and the post form, found %d" % (cls, op, len(fns)))
             for fn in fns:
                 form = "post" if fn.params else "pre"
                 problem, n = None, 0
@@ -865,12 +1515,12 @@ def check_iter_steps(ck, tree):
                                 if want < (0 if fwd else -1) or want > (tot if fwd else tot - 1):
                                     continue
                                 n += 1
-                                ex = absexec.Exec(fn, {"leaf": 4, "inner": 4})
+                                ex = StepExec(fn, tree)
                                 ex.this.update(curr_leaf=C, curr_slot=s)
                                 for prm in fn.params:
                                     ex.env[prm["did"]] = 0
                                 try:
-                                    ex.run(kids(fn.body))
+                                    ret = ex.run(kids(fn.body))
                                 except absexec.Problem as pr:
                                     problem = str(pr)
                                     continue
@@ -882,21 +1532,28 @@ def check_iter_steps(ck, tree):
                                                   getattr(leaf2, "name", leaf2), slot2,
                                                   "is not a valid position" if got is None else "is element %d instead of %d" % (got, want),
                                                   "next" if forward_move else "previous"))
-                # return value: pre returns *this, post the copy taken before the step
-                rets = [x for x in walk(fn.body) if x["k"] == "ReturnStmt"]
-                r = strip_casts(kids(rets[0])[0]) if rets and kids(rets[0]) else None
-                if not problem:
-                    if form == "pre":
-                        d = match.deref_of(r) if r is not None else None
-                        if d is None or strip_casts(d)["k"] != "This":
-                            problem = "the pre form must return *this"
-                    else:
-                        rr = match.strip_conv(r) if r is not None else None
-                        tmp = ref_of(rr) if rr is not None else None
-                        decl = [x for x in walk(fn.body) if x["k"] == "VarDecl" and x.get("did") == tmp]
-                        first_stmt = kids(fn.body)[0] if kids(fn.body) else None
-                        if not decl or first_stmt is None or not any(x is decl[0] for x in walk(first_stmt)):
-                            problem = "the post form must return the copy taken before the step"
+                                if problem:
+                                    continue
+                                # return value: pre returns *this, post the copy taken before the step
+                                if isinstance(ret, tuple) and len(ret) == 3 and ret[0] == "obj" and isinstance(ret[2], list) and \
+                                        len(ret[2]) == 2 and isinstance(ret[2][0], absexec.Node):
+                                    ret = ("copy", ret[2][0], ret[2][1])        # iterator(leaf, slot) built by hand
+                                here = "from (the leaf with %d entries, slot %d)" % (u, s)
+                                if form == "pre":
+                                    if isinstance(ret, tuple) and ret and ret[0] == "copy":
+                                        problem = "%s the pre form returns a copy taken at (%s, slot %s); it must return *this" % (
+                                            here, getattr(ret[1], "name", ret[1]), ret[2])
+                                    elif ret != ("thisobj",):
+                                        raise dtable.Undecidable("%s: value returned by the pre form not understood: %r" % (fn.loc, ret))
+                                else:
+                                    if ret == ("thisobj",):
+                                        problem = "%s the post form returns the iterator after the step; it must return the copy taken before the step" % here
+                                    elif isinstance(ret, tuple) and ret and ret[0] == "copy":
+                                        if ret[1] is not C or ret[2] != s:
+                                            problem = "%s the post form returns the position (%s, slot %s); it must return the copy taken before the step" % (
+                                                here, getattr(ret[1], "name", ret[1]), ret[2])
+                                    else:
+                                        raise dtable.Undecidable("%s: value returned by the post form not understood: %r" % (fn.loc, ret))
                 if problem:
                     ck.violation("ITER-STEP", fn.qname, "%s:%s:%s" % (cls, op, form), "%s %s of %s: %s" % (form, op, cls, problem), fn.loc)
                 else:
@@ -907,11 +1564,14 @@ def check_iter_steps(ck, tree):
 # ------------------------------------------------------------------ driver
 def run(ck):
     ck.explanation = (
-        "Decides the structural clauses of C01, not the observational equality itself. The five key predicates and the binary and linear "
-        "branch of find_lower/find_upper (leaf and inner instantiation) are reduced to truth tables over the user's less() and compared with the "
-        "meaning of lower/upper bound; every lookup must use the same search at every level and follow childid[result]; the hit test must be "
-        "`slot < slotuse && key_equal` with the right consequence; the walk of erase(iterator) over a run of equal keys may only give up when the "
-        "separator proves the key cannot follow; the erase descents must hand the right neighbours and neighbour-parents to the child; every "
+        "Decides the structural clauses of C01, not the observational equality itself. The five key predicates are reduced to truth tables "
+        "over the user's less(); find_lower/find_upper (leaf and inner instantiation, every compile-time variant: binary, linear, self-verifying) "
+        "are executed on all sorted nodes with up to 5 keys of 2 ranks and 5 searched keys and compared with std::lower_bound/upper_bound; "
+        "every lookup must use the same search at every level and follow childid[result]; the statements between the leaf search and the "
+        "decision are executed for every situation (slot < slotuse, key_equal, leaf non-null) and must do what a hit / a miss requires; the walk "
+        "of erase(iterator) over a run of equal keys may only give up when the separator proves the key cannot follow and otherwise advances "
+        "by one child; the erase descents must hand the right child, neighbours and neighbour-parents to the recursive call in all 16 "
+        "first/last/null situations; every "
         "consistent underflow situation (null/few neighbours, same/different parents) must be resolved by exactly one legal merge or shift with "
         "the separator slot of the side used; is_full/is_few/is_underflow must fit the node's own capacity (leaf and inner chosen independently); "
         "the four front ends select the right Duplicates flag and key extractor and forward every member in order; the 16 iterator step "
@@ -926,24 +1586,25 @@ def run(ck):
         ts = B.trees(tu)
         n_trees += len(ts)
         for t in ts:
-            check_keypreds(ck, tu, t)
+            # a rule that cannot decide (exit 2) must not hide a violation another rule can prove (exit 1)
+            ck.guarded(lambda: check_keypreds(ck, tu, t))
             for which in ("find_lower", "find_upper"):
                 for fn in t.find(which):
-                    check_search(ck, tu, t, fn)
-            check_descent(ck, t)
-            check_hit(ck, t)
-            check_iter_walk(ck, tu, t)
-            check_siblings(ck, t)
+                    ck.guarded(lambda: check_search(ck, tu, t, fn))
+            ck.guarded(lambda: check_descent(ck, t))
+            ck.guarded(lambda: check_hit(ck, t))
+            ck.guarded(lambda: check_iter_walk(ck, tu, t))
+            ck.guarded(lambda: check_siblings(ck, t))
             for name in ("erase_one_descend", "erase_iter_descend"):
-                B.check_underflow(ck, t, t.one(name))
+                ck.guarded(lambda: B.check_underflow(ck, t, t.one(name)))
             if t.small:
-                B.check_capacity(ck, t, cfg)
+                ck.guarded(lambda: B.check_capacity(ck, t, cfg))
                 ck.guarded(lambda: btprim.check_primitives(ck, t, cfg))
                 ck.guarded(lambda: btprim.check_insert(ck, tu, t, cfg))
                 ck.guarded(lambda: btprim.check_erase(ck, tu, t, cfg))
                 ck.guarded(lambda: btprim.check_bulk_load(ck, tu, t, cfg))
-            check_iter_steps(ck, t)
-        check_frontends(ck, tu)
+            ck.guarded(lambda: check_iter_steps(ck, t))
+        ck.guarded(lambda: check_frontends(ck, tu))
     m = n_trees
     ck.floor("KEYPRED-TABLE", 4 * m)
     ck.floor("SEARCH-TABLE", 8 * m)
